@@ -2479,7 +2479,7 @@ Qed.
 (* ======================================================================== *)
 (* Part N : the covered alphabet, final form: everything except restore_ind and the three
    single-figure totals (total_flops / total_write / max_size when they have to recompute) *)
-Definition prim_pre (p : prim) (s : tstate) : Prop :=
+Definition prim_preN (p : prim) (s : tstate) : Prop :=
   match p with
   | PGet GCanDot nd | PGet GInds nd | PGet GTdAxes nd | PGet GTdPerm nd | PGet GEq nd => good_node nd
   | PResetInds | PResetRecipes | PSortInds _ _ _ _ => True
@@ -2489,10 +2489,10 @@ Definition prim_pre (p : prim) (s : tstate) : Prop :=
   | PMaxSize => trk_size s = true
   | _ => prim_pre1 p s
   end.
-Theorem step_preserves_InvC p s : InvC s -> prim_pre p s -> InvC (step n p s).
+Theorem step_preserves_InvCN p s : InvC s -> prim_preN p s -> InvC (step n p s).
 Proof.
   intros HI Hp. destruct p as [nd|nd|x y lg c z|g nd|f| | | | | |pr a b c|ind pj|ind| |k];
-    try (apply step_preserves_InvC1; assumption); cbn [step]; cbn [prim_pre] in Hp.
+    try (apply step_preserves_InvC1; assumption); cbn [step]; cbn [prim_preN] in Hp.
   - destruct g; cbn [do_get].
     + exact (step_preserves_InvC1 (PGet GLegs nd) s HI Hp).
     + exact (step_preserves_InvC1 (PGet GInvolved nd) s HI Hp).
@@ -2511,10 +2511,6 @@ Proof.
   - apply sort_inds_inv, HI.
   - apply remove_ind_inv; assumption.
 Qed.
-Theorem run_preserves_InvC tr : forall s, InvC s -> pre_trace n prim_pre tr s -> InvC (run n tr s).
-Proof. intros s HI Hp. apply (run_good n InvC prim_pre step_preserves_InvC tr s HI Hp). Qed.
-Theorem trace_from_fresh_InvC tr : pre_trace n prim_pre tr (init_state n) -> InvC (run n tr (init_state n)).
-Proof. apply run_preserves_InvC, init_state_InvC. Qed.
 
 (* ======================================================================== *)
 (* Part O : the figures are a function of (children, SET of removed indices)  *)
@@ -2595,6 +2591,1304 @@ Proof.
     destruct (Hpres p Hp) as [K1 K2]. destruct (nget p (info s1)) as [i1|] eqn:E1; [|congruence].
     destruct (nget p (info s2)) as [i2|] eqn:E2; [|congruence].
     specialize (Pa p Hp). specialize (Pb p Hp). unfold csize, rd in *. rewrite E1 in *. rewrite E2 in *.
+    destruct (HF p i1 i2 E1 E2) as (Hsz & _).
+    destruct (i_size i1) as [z1|]; [|congruence]. destruct (i_size i2) as [z2|]; [|congruence].
+    apply (Hsz z1 z2); reflexivity.
+  - destruct HS1 as (_&_&_&M1), HS2 as (_&_&_&M2). rewrite M1, M2. apply multiplicity_perm, HP.
+Qed.
+
+(* ======================================================================== *)
+(* Part P : the same lemmas relative to a set V of nodes on which validity is demanded
+   (used by restore_ind, whose loop passes through states in which the not yet re-created
+   ancestors still carry caches for the OLD sliced set) *)
+Section VV.
+Variable V : node -> Prop.
+Definition InvSV (s : tstate) : Prop :=
+  children_ok (children s) /\
+  NoDup (nkeys (info s)) /\
+  (forall nd i, nget nd (info s) = Some i -> good_node nd /\ (V nd -> node_inv (children s) (sliced s) nd i)) /\
+  mult s = multiplicity n (sliced s).
+(* V is closed under children and under the leaves of its members *)
+Definition Vclosed (ch : list (node * (node * node))) : Prop :=
+  (forall p l r, nget p ch = Some (l, r) -> V p -> V l /\ V r) /\ (forall nd k, V nd -> In k nd -> V [k]).
+
+Lemma InvSV_same s s' : same_cost_fields s s' -> InvSV s -> InvSV s'.
+Proof.
+  intros (E1&E2&E3&E4&E5&E6&E7&E8&E9&E10&E11) (H1&H2&H3&H5).
+  unfold InvSV in *. rewrite E1, E2, E3, E4. exact (conj H1 (conj H2 (conj H3 H5))).
+Qed.
+Lemma InvSV_upd nd f s : InvSV s ->
+  (forall i, nget nd (info s) = Some i -> V nd -> node_inv (children s) (sliced s) nd (f i)) ->
+  InvSV (upd_info nd f s).
+Proof.
+  intros HI Hf. destruct (nget nd (info s)) as [i|] eqn:E.
+  2:{ unfold upd_info. rewrite E. apply (InvSV_same s), HI. apply same_set_err. }
+  destruct HI as (H1&H2&H3&H5). unfold InvSV, upd_info. rewrite E. cbn [set_info children info sliced mult].
+  split; [exact H1|]. split; [rewrite nkeys_nset_in by congruence; exact H2|]. split; [|exact H5].
+  intros nd' i' Hg. destruct (node_eq_dec nd' nd) as [->|Hn].
+  - rewrite nget_nset_same in Hg. injection Hg as <-. split; [apply (H3 nd i E)|intros HV; apply (Hf i eq_refl HV)].
+  - rewrite nget_nset_other in Hg by exact Hn. apply H3, Hg.
+Qed.
+Lemma InvCV_upd nd f s : InvSV s ->
+  (forall i, nget nd (info s) = Some i -> (V nd -> node_inv (children s) (sliced s) nd (f i)) /\ mono i (f i)) ->
+  InvSV (upd_info nd f s) /\ Ext s (upd_info nd f s).
+Proof.
+  intros HI Hf. split; [apply InvSV_upd; [exact HI|intros i Hi HV; apply (proj1 (Hf i Hi) HV)]|apply Ext_upd; intros i Hi; apply (Hf i Hi)].
+Qed.
+Lemma cache_legsV s s1 nd v : InvSV s1 -> Ext s s1 -> (V nd -> legs_ok n (sliced s) nd v) ->
+  InvSV (upd_info nd (w_legs (Some v)) s1) /\ Ext s (upd_info nd (w_legs (Some v)) s1).
+Proof.
+  intros HI HE Hv. destruct (InvCV_upd nd (w_legs (Some v)) s1 HI) as [H1 H2].
+  - intros i Hi. destruct HI as (_&_&H3&_). destruct (H3 nd i Hi) as [_ Hn]. split; [|split; cbn; auto].
+    intros HV. apply node_inv_w_legs; [exact (Hn HV)|]. destruct HE as (_&E2&_). rewrite E2. exact (Hv HV).
+  - split; [exact H1|eapply Ext_trans; eassumption].
+Qed.
+Lemma cache_involvedV s s1 nd v : InvSV s1 -> Ext s s1 -> (V nd -> inv_spec (children s) (sliced s) nd v) ->
+  InvSV (upd_info nd (w_involved (Some v)) s1) /\ Ext s (upd_info nd (w_involved (Some v)) s1).
+Proof.
+  intros HI HE Hv. destruct (InvCV_upd nd (w_involved (Some v)) s1 HI) as [H1 H2].
+  - intros i Hi. destruct HI as (_&_&H3&_). destruct (H3 nd i Hi) as [_ Hn]. split; [|split; cbn; auto].
+    intros HV. apply node_inv_w_involved; [exact (Hn HV)|]. destruct HE as (E1&E2&_). rewrite E1, E2. exact (Hv HV).
+  - split; [exact H1|eapply Ext_trans; eassumption].
+Qed.
+Definition PlV (f : nat) : Prop := forall s nd, InvSV s -> Vclosed (children s) -> V nd -> good_node nd -> 2 * length nd <= f ->
+  InvSV (fst (get_legs n f s nd)) /\ Ext s (fst (get_legs n f s nd)) /\
+  legs_ok n (sliced s) nd (snd (get_legs n f s nd)).
+Definition PiV (f : nat) : Prop := forall s nd, InvSV s -> Vclosed (children s) -> V nd -> good_node nd -> 2 * length nd <= f + 1 ->
+  InvSV (fst (get_involved n f s nd)) /\ Ext s (fst (get_involved n f s nd)) /\
+  match snd (get_involved n f s nd) with
+  | Some inv => inv_spec (children s) (sliced s) nd inv
+  | None => nget nd (children s) = None /\ length nd <> 1
+  end.
+Lemma fallback_foldV f' sl0 : PlV f' -> 2 <= f' -> forall xs s2 acc,
+  InvSV s2 -> Vclosed (children s2) -> (forall k, In k xs -> V [k]) -> sliced s2 = sl0 -> (forall k, In k xs -> k < N) ->
+  let r := fold_left (fun acc i => let '(sa, l) := get_legs n f' (fst acc) [i] in (sa, snd acc ++ [l])) xs (s2, acc) in
+  InvSV (fst r) /\ Ext s2 (fst r) /\
+  exists ls', snd r = acc ++ ls' /\ Forall2 (fun i lg => slegs_ok n sl0 [i] lg) xs ls'.
+Proof.
+  intros HPl Hf. induction xs as [|x xs IH]; intros s2 acc HI HC HVx Hsl Hb; cbn [fold_left].
+  - cbn. split; [exact HI|]. split; [apply Ext_refl|]. exists []. rewrite app_nil_r. split; [reflexivity|constructor].
+  - cbn [fst snd].
+    assert (Gx : good_node [x]).
+    { split; [|discriminate]. split; [repeat constructor; cbn; tauto|]. intros k [<-|[]]. apply Hb. left. reflexivity. }
+    destruct (HPl s2 [x] HI HC (HVx x (or_introl eq_refl)) Gx) as (A & B & C); [cbn; lia|].
+    destruct (get_legs n f' s2 [x]) as [sa l] eqn:El. cbn [fst snd] in A, B, C.
+    assert (Esl : sliced sa = sl0) by (destruct B as (_&E2&_); congruence).
+    assert (HCa : Vclosed (children sa)) by (destruct B as (Ech&_); rewrite Ech; exact HC).
+    destruct (IH sa (acc ++ [l]) A HCa) as (A' & B' & ls' & E' & F').
+    { intros k Hk. apply HVx. right. exact Hk. }
+    { exact Esl. }
+    { intros k Hk. apply Hb. right. exact Hk. }
+    split; [exact A'|]. split; [eapply Ext_trans; eassumption|].
+    exists (l :: ls'). split; [rewrite E', <- app_assoc; reflexivity|].
+    constructor; [|exact F']. rewrite Hsl in C. apply legs_ok_nonroot in C; [exact C|cbn; lia].
+Qed.
+Lemma getters_stepV f' : PlV f' /\ PiV f' -> PlV (S f') /\ PiV (S f').
+Proof.
+  intros [HPl HPi]. split.
+  - (* get_legs *)
+    intros s nd HI HC HV HG Hf. rewrite get_legs_S.
+    destruct (rd i_legs s nd) as [lg|] eqn:Er.
+    { cbn [fst snd]. split; [exact HI|]. split; [apply Ext_refl|].
+      destruct (rd_Some _ _ _ _ Er) as (i & Hi & Hl). destruct HI as (_&_&H3&_).
+      destruct (H3 nd i Hi) as [_ Hn]. destruct (Hn HV) as (A&_). apply A, Hl. }
+    pose proof (good_len nd HG) as Hlen.
+    destruct (Nat.eqb_spec (length nd) 1) as [E1|E1].
+    { (* leaf *)
+      rewrite (len1 nd E1) in *. set (k := hd 0 nd) in *.
+      assert (Hk : k < N) by (apply good_leaf, HG).
+      unfold compute_leaf_legs.
+      set (s' := match leaf_preproc n (sliced s) k with Some tk => set_preproc (pset k (canon_eq1 tk) (preproc s)) s | None => s end).
+      assert (Hs' : same_cost_fields s s').
+      { unfold s'. destruct (leaf_preproc n (sliced s) k); [apply same_set_preproc|unfold same_cost_fields; repeat split; reflexivity]. }
+      assert (Ec : cores s' = cores s) by (unfold s'; destruct (leaf_preproc n (sliced s) k); reflexivity).
+      cbn [fst snd].
+      destruct (cache_legsV s s' [k] (leaf_legs n (sliced s) k)) as [A B];
+        [apply (InvSV_same s), HI; exact Hs'|apply Ext_same; assumption|intros _; apply legs_ok_leaf, Hk|].
+      split; [exact A|]. split; [exact B|apply legs_ok_leaf, Hk]. }
+    destruct (Nat.eqb_spec (length nd) N) as [EN|EN].
+    { cbn [fst snd]. destruct (cache_legsV s s nd (root_legs n (sliced s)) HI (Ext_refl s) (fun _ => legs_ok_root _ _ EN)) as [A B].
+      split; [exact A|]. split; [exact B|apply legs_ok_root, EN]. }
+    destruct (HPi s nd HI HC HV HG) as (A & B & C); [lia|].
+    destruct (get_involved n f' s nd) as [s2 [inv|]] eqn:Ei; cbn [fst snd] in A, B, C.
+    + (* involved available *)
+      cbn [fst snd].
+      assert (Hv : legs_ok n (sliced s) nd (filter (fun kv => Nat.ltb (snd kv) (appear n (fst kv))) inv)).
+      { destruct C as [[C _]|(l & r & Hch & Hinv)]; [contradiction|].
+        destruct HI as ((_&Hc)&_). destruct (Hc nd l r Hch) as (_&_&HR&HP).
+        apply legs_ok_nonroot; [exact EN|]. apply (slegs_ok_perm n _ (l ++ r)); [apply Permutation_sym, HP|].
+        apply filter_inv_ok; assumption. }
+      destruct (cache_legsV s s2 nd _ A B (fun _ => Hv)) as [A' B']. split; [exact A'|]. split; [exact B'|exact Hv].
+    + (* the fallback over the leaves *)
+      assert (Hf' : 2 <= f') by lia.
+      destruct (fallback_foldV f' (sliced s) HPl Hf' nd s2 [] A) as (A' & B' & ls' & E' & F').
+      { destruct B as (Ech&_). rewrite Ech. exact HC. }
+      { intros k Hk. apply (proj2 HC nd k HV Hk). }
+      { destruct B as (_&E2&_). exact E2. }
+      { intros k Hk. apply HG, Hk. }
+      cbn zeta in A', B', E'.
+      destruct (fold_left _ nd (s2, [])) as [s3 ls] eqn:Ef. cbn [fst snd] in A', B', E'. cbn [fst snd].
+      cbn [app] in E'. subst ls.
+      assert (Hv : legs_ok n (sliced s) nd (filter (fun kv => Nat.ltb (snd kv) (appear n (fst kv))) (legs_union ls'))).
+      { apply leaves_union_ok; [apply HG|apply HG|exact EN|exact F']. }
+      destruct (cache_legsV s s3 nd _ A' (Ext_trans _ _ _ B B') (fun _ => Hv)) as [A'' B''].
+      split; [exact A''|]. split; [exact B''|exact Hv].
+  - (* get_involved *)
+    intros s nd HI HC HV HG Hf. rewrite get_involved_S.
+    destruct (rd i_involved s nd) as [inv|] eqn:Er.
+    { cbn [fst snd]. split; [exact HI|]. split; [apply Ext_refl|].
+      destruct (rd_Some _ _ _ _ Er) as (i & Hi & Hl). destruct HI as (_&_&H3&_).
+      destruct (H3 nd i Hi) as [_ Hn]. destruct (Hn HV) as (_&A&_). apply A, Hl. }
+    destruct (Nat.eqb_spec (length nd) 1) as [E1|E1].
+    { cbn [fst snd]. assert (Hv : inv_spec (children s) (sliced s) nd []) by (left; split; [exact E1|reflexivity]).
+      destruct (cache_involvedV s s nd [] HI (Ext_refl s) (fun _ => Hv)) as [A B]. split; [exact A|]. split; [exact B|exact Hv]. }
+    destruct (nget nd (children s)) as [[l r]|] eqn:Ech.
+    2:{ cbn [fst snd]. split; [exact HI|]. split; [apply Ext_refl|]. split; [reflexivity|exact E1]. }
+    assert (Hc := HI). destruct Hc as ((_&Hc)&_). destruct (Hc nd l r Ech) as (Gl & Gr & HR & HP).
+    pose proof (Permutation_length HP) as HL. rewrite app_length in HL.
+    pose proof (good_len l Gl) as Ll. pose proof (good_len r Gr) as Lr. pose proof (good_len nd HG) as Lnd.
+    destruct (proj1 HC nd l r Ech HV) as [Vl Vr].
+    destruct (HPl s l HI HC Vl Gl) as (A1 & B1 & C1); [lia|].
+    destruct (get_legs n f' s l) as [s1 ll] eqn:El. cbn [fst snd] in A1, B1, C1.
+    assert (HC1 : Vclosed (children s1)) by (destruct B1 as (Ech1&_); rewrite Ech1; exact HC).
+    destruct (HPl s1 r A1 HC1 Vr Gr) as (A2 & B2 & C2); [lia|].
+    destruct (get_legs n f' s1 r) as [s2 lr] eqn:Elr. cbn [fst snd] in A2, B2, C2. cbn [fst snd].
+    assert (Esl1 : sliced s1 = sliced s) by apply B1. rewrite Esl1 in C2.
+    apply legs_ok_nonroot in C1; [|lia]. apply legs_ok_nonroot in C2; [|lia].
+    assert (Hv : inv_spec (children s) (sliced s) nd (legs_union2 ll lr)).
+    { right. exists l, r. split; [exact Ech|apply union2_inv_ok; assumption]. }
+    destruct (cache_involvedV s s2 nd _ A2 (Ext_trans _ _ _ B1 B2) (fun _ => Hv)) as [A B].
+    split; [exact A|]. split; [exact B|exact Hv].
+Qed.
+Lemma getters_allV f : PlV f /\ PiV f.
+Proof.
+  induction f as [|f IH]; [|apply getters_stepV, IH]. split.
+  - intros s nd _ _ _ HG Hf. pose proof (good_len nd HG). lia.
+  - intros s nd _ _ _ HG Hf. pose proof (good_len nd HG). lia.
+Qed.
+Lemma g_legs_invV s nd : InvSV s -> Vclosed (children s) -> V nd -> good_node nd ->
+  InvSV (fst (g_legs n s nd)) /\ Ext s (fst (g_legs n s nd)) /\ legs_ok n (sliced s) nd (snd (g_legs n s nd)).
+Proof. intros HI HC HV HG. apply (proj1 (getters_allV (fuel n s))); [exact HI|exact HC|exact HV|exact HG|apply fuel_enough, HG]. Qed.
+
+Lemma g_involved_invV s nd : InvSV s -> Vclosed (children s) -> V nd -> good_node nd ->
+  InvSV (fst (g_involved n s nd)) /\ Ext s (fst (g_involved n s nd)) /\
+  (length nd = 1 \/ nget nd (children s) <> None -> inv_spec (children s) (sliced s) nd (snd (g_involved n s nd))).
+Proof.
+  intros HI HC HV HG. unfold g_involved.
+  destruct (proj2 (getters_allV (fuel n s)) s nd HI HC HV HG) as (A & B & C); [pose proof (fuel_enough s nd HG); lia|].
+  destruct (get_involved n (fuel n s) s nd) as [s' [v|]]; cbn [fst snd] in *.
+  - split; [exact A|]. split; [exact B|]. intros _. exact C.
+  - split; [apply (InvSV_same s'), A; apply same_set_err|].
+    split; [eapply Ext_trans; [exact B|apply Ext_same; [apply same_set_err|reflexivity]]|].
+    intros [H|H]; [destruct C; contradiction|destruct C; contradiction].
+Qed.
+Lemma g_size_invV s nd : InvSV s -> Vclosed (children s) -> V nd -> good_node nd ->
+  InvSV (fst (g_size n s nd)) /\ Ext s (fst (g_size n s nd)) /\ size_spec (sliced s) nd (snd (g_size n s nd))
+  /\ rd i_size (fst (g_size n s nd)) nd = Some (snd (g_size n s nd)) \/ nget nd (info s) = None.
+Proof.
+  intros HI HC HV HG. destruct (nget nd (info s)) as [i0|] eqn:Ei0; [left|right; reflexivity].
+  unfold g_size. destruct (rd i_size s nd) as [z|] eqn:Er.
+  { cbn [fst snd]. split; [exact HI|]. split; [apply Ext_refl|]. split; [|exact Er].
+    destruct (rd_Some _ _ _ _ Er) as (i & Hi & Hz). destruct HI as (_&_&H3&_).
+    destruct (H3 nd i Hi) as [_ Hn]. destruct (Hn HV) as (_&_&A&_). apply A, Hz. }
+  destruct (g_legs_invV s nd HI HC HV HG) as (A & B & C).
+  destruct (g_legs n s nd) as [s1 l]. cbn [fst snd] in *.
+  assert (Esl : sliced s1 = sliced s) by apply B.
+  destruct (InvCV_upd nd (w_size (Some (size_of (szd n) (lkeys l)))) s1 A) as [A' B'].
+  { intros i Hi. destruct A as (_&_&H3&_). destruct (H3 nd i Hi) as [_ Hn].
+    destruct (node_inv_w_size' _ _ nd i l (Hn HV)) as [Q1 Q2]; [rewrite Esl; exact C|]. split; [intros _; exact Q1|exact Q2]. }
+  split; [exact A'|]. split; [eapply Ext_trans; eassumption|]. split.
+  - intros lg Hlg. apply (legs_ok_size_unique n (sliced s) _ nd); assumption.
+  - assert (Hk : nget nd (info s1) <> None).
+    { apply nget_in_keys. destruct B as (_&_&_&_&_&_&_&_&_&_&_&Ek&_). unfold nkeys in *. rewrite Ek.
+      apply nget_in_keys. congruence. }
+    destruct (nget nd (info s1)) as [i1|] eqn:Ei1; [|congruence].
+    rewrite (rd_upd_same i_size nd _ s1 i1 Ei1). reflexivity.
+Qed.
+Lemma g_flops_invV s nd : InvSV s -> Vclosed (children s) -> V nd -> good_node nd -> flops_pre s nd ->
+  InvSV (fst (g_flops n s nd)) /\ Ext s (fst (g_flops n s nd)) /\
+  (nget nd (info s) <> None -> rd i_flops (fst (g_flops n s nd)) nd = Some (snd (g_flops n s nd))).
+Proof.
+  intros HI HC HV HG Hpre. unfold g_flops. destruct (rd i_flops s nd) as [z|] eqn:Er.
+  { cbn [fst snd]. split; [exact HI|]. split; [apply Ext_refl|]. intros _. exact Er. }
+  destruct (Nat.eqb_spec (length nd) 1) as [E1|E1].
+  { cbn [fst snd]. destruct (InvCV_upd nd (w_flops (Some 0%Z)) s HI) as [A B].
+    { intros i Hi. assert (HI' := HI). destruct HI' as (Hc&_&H3&_). destruct (H3 nd i Hi) as [_ Hn].
+      destruct (node_inv_w_flops0 _ _ nd i Hc (Hn HV) E1) as [Q1 Q2]. split; [intros _; exact Q1|exact Q2]. }
+    split; [exact A|]. split; [exact B|]. intros Hk. destruct (nget nd (info s)) as [i|] eqn:Ei; [|congruence].
+    rewrite (rd_upd_same i_flops nd _ s i Ei). reflexivity. }
+  assert (Hch : nget nd (children s) <> None) by (destruct Hpre as [H|[H|H]]; [contradiction|exact H|congruence]).
+  destruct (g_involved_invV s nd HI HC HV HG) as (A & B & C).
+  destruct (g_involved n s nd) as [s1 inv]. cbn [fst snd] in *.
+  destruct (C (or_intror Hch)) as [[E _]|(l & r & Ech & Hinv)]; [contradiction|].
+  assert (Ech1 : children s1 = children s) by apply B. assert (Esl1 : sliced s1 = sliced s) by apply B.
+  destruct (InvCV_upd nd (w_flops (Some (size_of (szd n) (lkeys inv)))) s1 A) as [A' B'].
+  { intros i Hi. assert (A0 := A). destruct A0 as (Hc&_&H3&_). destruct (H3 nd i Hi) as [_ Hn].
+    destruct (node_inv_w_flops' _ _ nd i l r inv (Hn HV) Hc) as [Q1 Q2]; [rewrite Ech1; exact Ech|rewrite Esl1; exact Hinv|].
+    split; [intros _; exact Q1|exact Q2]. }
+  split; [exact A'|]. split; [eapply Ext_trans; eassumption|].
+  intros Hk. assert (Hk1 : nget nd (info s1) <> None).
+  { apply nget_in_keys. destruct B as (_&_&_&_&_&_&_&_&_&_&_&Ek&_). unfold nkeys in *. rewrite Ek. apply nget_in_keys, Hk. }
+  destruct (nget nd (info s1)) as [i1|] eqn:Ei1; [|congruence].
+  rewrite (rd_upd_same i_flops nd _ s1 i1 Ei1). reflexivity.
+Qed.
+Lemma InvSV_children_del nd s i' :
+  InvSV s -> (length nd = N -> i' = Some noinfo) ->
+  forall s', children s' = ndel nd (children s) -> sliced s' = sliced s -> mult s' = mult s ->
+  info s' = match i' with Some x => nset nd x (info s) | None => ndel nd (info s) end ->
+  nget nd (info s) <> None -> (i' = None \/ i' = Some noinfo) ->
+  InvSV s'.
+Proof.
+  intros (H1&H2&H3&H5) _ s' Ech Esl Em Ei Hk Hi'. destruct H1 as [Hnd Hc].
+  unfold InvSV. rewrite Ech, Esl, Em. split; [|split; [|split; [|exact H5]]].
+  - split; [apply NoDup_nkeys_ndel, Hnd|]. intros p l r Hp. destruct (node_eq_dec p nd) as [->|Hn].
+    + rewrite nget_ndel_same in Hp by exact Hnd. discriminate.
+    + rewrite nget_ndel_other in Hp by exact Hn. apply Hc, Hp.
+  - rewrite Ei. destruct i'; [apply NoDup_nkeys_nset, H2|apply NoDup_nkeys_ndel, H2].
+  - intros nd' j Hj. rewrite Ei in Hj.
+    assert (Hcase : (nd' = nd /\ j = noinfo) \/ (nd' <> nd /\ nget nd' (info s) = Some j)).
+    { destruct (node_eq_dec nd' nd) as [->|Hn].
+      - destruct Hi' as [->| ->].
+        + rewrite nget_ndel_same in Hj by exact H2. discriminate.
+        + rewrite nget_nset_same in Hj. injection Hj as <-. left. auto.
+      - right. split; [exact Hn|]. destruct i'; [rewrite nget_nset_other in Hj by exact Hn|rewrite nget_ndel_other in Hj by exact Hn]; exact Hj. }
+    destruct Hcase as [[-> ->]|[Hn Hj']].
+    + destruct (nget nd (info s)) as [i0|] eqn:E0; [|congruence]. split; [apply (H3 nd i0 E0)|intros _; apply node_inv_noinfo].
+    + destruct (H3 nd' j Hj') as [G Hv]. split; [exact G|]. intros HV. destruct (Hv HV) as (A&B&C&D). unfold node_inv. repeat split; auto.
+      * intros inv Hinv. destruct (B inv Hinv) as [Hl|(l & r & E & Hok)]; [left; exact Hl|right].
+        exists l, r. split; [rewrite nget_ndel_other by exact Hn; exact E|exact Hok].
+      * intros z Hz. destruct (D z Hz) as [Hl|(l & r & E & Hok)]; [left; exact Hl|right].
+        exists l, r. split; [rewrite nget_ndel_other by exact Hn; exact E|exact Hok].
+Qed.
+Lemma InvSV_struct s s' : same_struct s s' -> InvSV s -> InvSV s'.
+Proof. intros (E1&E2&E3&E4) H. unfold InvSV in *. rewrite E1, E2, E3, E4. exact H. Qed.
+
+Lemma track_flopsV K p s : InvSV s -> Vclosed (children s) -> V p -> good_node p -> nget p (children s) <> None -> nget p (info s) <> None ->
+  tot_flops K s ->
+  let s1 := (if trk_flops s then let '(sa, fl) := g_flops n s p in set_flops (flops_ sa + fl)%Z sa else s) in
+  InvSV s1 /\ ExtI s s1 /\ write_ s1 = write_ s /\ sizes_ s1 = sizes_ s /\ sizes_max s1 = sizes_max s /\
+  tot_flops (K ++ [p]) s1.
+Proof.
+  intros HS HC HV HG Hch Hk T. cbn zeta. destruct (trk_flops s) eqn:Ts.
+  - destruct (g_flops_invV s p HS HC HV HG) as (A & B & C); [right; left; exact Hch|].
+    specialize (C Hk). destruct (g_flops n s p) as [sa fl]. cbn [fst snd] in *.
+    split; [apply (InvSV_struct sa); [unfold same_struct; repeat split; reflexivity|exact A]|].
+    split; [apply (ExtI_trans _ sa); [apply Ext_ExtI, B|unfold ExtI; repeat split; auto]|].
+    assert (B' := B). destruct B' as (_&_&_&B4&_&_&B7&B8&B9&B10&_).
+    split; [exact B8|]. split; [exact B9|]. split; [exact B10|].
+    pose proof (tot_flops_Ext K s sa B T) as T'. unfold tot_flops in *. cbn. intros _.
+    rewrite B4 in T'. destruct (T' Ts) as [Ta Tb].
+    change (cflops (set_flops (flops_ sa + fl)%Z sa)) with (cflops sa).
+    change (rd i_flops (set_flops (flops_ sa + fl)%Z sa)) with (rd i_flops sa). split.
+    + assert (Ecf : cflops sa p = fl) by (unfold cflops; rewrite C; reflexivity).
+      rewrite map_app, zsum_app, Ta. cbn [map]. rewrite zsum_cons, Ecf. change (zsum []) with 0%Z. lia.
+    + intros q Hq. apply in_app_iff in Hq. destruct Hq as [Hq|[<-|[]]]; [apply Tb, Hq|rewrite C; discriminate].
+  - split; [exact HS|]. split; [unfold ExtI; repeat split; auto|]. repeat split; try reflexivity; try congruence; try discriminate.
+Qed.
+Lemma track_writeV K p s : InvSV s -> Vclosed (children s) -> V p -> good_node p -> nget p (info s) <> None -> tot_write K s ->
+  let s1 := (if trk_write s then let '(sa, sz) := g_size n s p in set_write (write_ sa + sz)%Z sa else s) in
+  InvSV s1 /\ ExtI s s1 /\ flops_ s1 = flops_ s /\ sizes_ s1 = sizes_ s /\ sizes_max s1 = sizes_max s /\
+  tot_write (K ++ [p]) s1.
+Proof.
+  intros HS HC HV HG Hk T. cbn zeta. destruct (trk_write s) eqn:Ts.
+  - destruct (g_size_invV s p HS HC HV HG) as [(A & B & _ & C)|C]; [|congruence].
+    destruct (g_size n s p) as [sa sz]. cbn [fst snd] in *.
+    split; [apply (InvSV_struct sa); [unfold same_struct; repeat split; reflexivity|exact A]|].
+    split; [apply (ExtI_trans _ sa); [apply Ext_ExtI, B|unfold ExtI; repeat split; auto]|].
+    assert (B' := B). destruct B' as (_&_&_&_&B5&_&B7&B8&B9&B10&_).
+    split; [exact B7|]. split; [exact B9|]. split; [exact B10|].
+    pose proof (tot_write_Ext K s sa B T) as T'. unfold tot_write in *. cbn. intros _.
+    rewrite B5 in T'. destruct (T' Ts) as [Ta Tb].
+    change (csize (set_write (write_ sa + sz)%Z sa)) with (csize sa).
+    change (rd i_size (set_write (write_ sa + sz)%Z sa)) with (rd i_size sa). split.
+    + assert (Ecf : csize sa p = sz) by (unfold csize; rewrite C; reflexivity).
+      rewrite map_app, zsum_app, Ta. cbn [map]. rewrite zsum_cons, Ecf. change (zsum []) with 0%Z. lia.
+    + intros q Hq. apply in_app_iff in Hq. destruct Hq as [Hq|[<-|[]]]; [apply Tb, Hq|rewrite C; discriminate].
+  - split; [exact HS|]. split; [unfold ExtI; repeat split; auto|]. repeat split; try reflexivity; try congruence; try discriminate.
+Qed.
+Lemma track_sizeV K p s : InvSV s -> Vclosed (children s) -> V p -> good_node p -> nget p (info s) <> None -> tot_size K s ->
+  let s1 := (if trk_size s then let '(sa, sz) := g_size n s p in set_sizes (mc_add sz (sizes_mc sa)) sa else s) in
+  InvSV s1 /\ ExtI s s1 /\ flops_ s1 = flops_ s /\ write_ s1 = write_ s /\
+  tot_size (K ++ [p]) s1.
+Proof.
+  intros HS HC HV HG Hk T. cbn zeta. destruct (trk_size s) eqn:Ts.
+  - destruct (g_size_invV s p HS HC HV HG) as [(A & B & _ & C)|C]; [|congruence].
+    destruct (g_size n s p) as [sa sz]. cbn [fst snd] in *.
+    split; [apply (InvSV_struct sa); [unfold same_struct; repeat split; reflexivity|exact A]|].
+    split; [apply (ExtI_trans _ sa); [apply Ext_ExtI, B|unfold ExtI; repeat split; auto]|].
+    assert (B' := B). destruct B' as (_&_&_&_&_&B6&B7&B8&_).
+    split; [exact B7|]. split; [exact B8|].
+    pose proof (tot_size_Ext K s sa B T) as T'. unfold tot_size in *. intros _.
+    rewrite B6 in T'. destruct (T' Ts) as (Ta & Tb & Tc).
+    change (mc_ok (mc_add sz (sizes_mc sa)) /\
+            (forall z, cget0 z (fst (mc_add sz (sizes_mc sa))) = count_occ Z.eq_dec (map (csize sa) (K ++ [p])) z) /\
+            (forall q, In q (K ++ [p]) -> rd i_size sa q <> None)).
+    split; [apply mc_add_ok, Ta|]. split.
+    + intros z. rewrite mc_add_count. cbn [fst sizes_mc]. rewrite Tb, map_app. cbn [map]. rewrite count_occ_snoc.
+      assert (Ecf : csize sa p = sz) by (unfold csize; rewrite C; reflexivity). rewrite Ecf. reflexivity.
+    + intros q Hq. apply in_app_iff in Hq. destruct Hq as [Hq|[<-|[]]]; [apply Tc, Hq|rewrite C; discriminate].
+  - split; [exact HS|]. split; [unfold ExtI; repeat split; auto|]. repeat split; try reflexivity; try congruence; try discriminate.
+Qed.
+Lemma InvSV_children_add p l r s : InvSV s -> nget p (children s) = None ->
+  good_node l -> good_node r -> inrange n (l ++ r) -> Permutation p (l ++ r) ->
+  InvSV (set_children (nset p (l, r) (children s)) s).
+Proof.
+  intros (H1&H2&H3&H5) Hnone Gl Gr HR HP. destruct H1 as [Hnd Hc].
+  unfold InvSV. cbn [set_children children info sliced mult]. split; [|split; [exact H2|split; [|exact H5]]].
+  - split; [apply NoDup_nkeys_nset, Hnd|]. intros q l' r' Hq. destruct (node_eq_dec q p) as [->|Hn].
+    + rewrite nget_nset_same in Hq. injection Hq as <- <-. auto.
+    + rewrite nget_nset_other in Hq by exact Hn. apply Hc, Hq.
+  - intros nd' i Hi. destruct (H3 nd' i Hi) as [G Hv]. split; [exact G|]. intros HV. destruct (Hv HV) as (A&B&C&D). unfold node_inv. repeat split; auto.
+    + intros inv Hinv. destruct (B inv Hinv) as [Hl|(l' & r' & E & Hok)]; [left; exact Hl|right].
+      exists l', r'. split; [|exact Hok]. rewrite nget_nset_other; [exact E|]. intros ->. congruence.
+    + intros z Hz. destruct (D z Hz) as [Hl|(l' & r' & E & Hok)]; [left; exact Hl|right].
+      exists l', r'. split; [|exact Hok]. rewrite nget_nset_other; [exact E|]. intros ->. congruence.
+Qed.
+Definition InvCV (s : tstate) : Prop := InvSV s /\ totals_inv s.
+Lemma add_node_invV nd s : InvCV s -> good_node nd ->
+  InvCV (add_node nd s) /\ children (add_node nd s) = children s /\ sliced (add_node nd s) = sliced s /\
+  nget nd (info (add_node nd s)) <> None /\
+  (forall p, nget p (info s) <> None -> nget p (info (add_node nd s)) = nget p (info s)).
+Proof.
+  intros [HS HT] HG. unfold add_node, nmem. destruct (nget nd (info s)) as [i|] eqn:E.
+  { split; [split; assumption|]. split; [reflexivity|]. split; [reflexivity|]. split; [rewrite E; discriminate|intros; reflexivity]. }
+  set (s' := set_info (info s ++ [(nd, noinfo)]) s).
+  assert (Hget : forall p, nget p (info s) <> None -> nget p (info s') = nget p (info s)).
+  { intros p Hp. unfold s'. cbn. destruct (nget p (info s)) as [ip|] eqn:Ep; [|congruence]. apply nget_app_l, Ep. }
+  split; [|split; [reflexivity|split; [reflexivity|split; [|exact Hget]]]].
+  2:{ unfold s'. cbn. rewrite (nget_app_r nd _ _ E). cbn. rewrite node_eqb_refl. discriminate. }
+  destruct HS as (H1&H2&H3&H5). split.
+  - unfold InvSV, s'. cbn. split; [exact H1|]. split; [|split; [|exact H5]].
+    + unfold nkeys. rewrite map_app. cbn. apply nget_none_notin in E. fold (nkeys (info s)).
+      clear -H2 E. induction (nkeys (info s)) as [|a l IH]; cbn; [constructor; [tauto|constructor]|].
+      inversion H2 as [|? ? Ha ND']; subst. constructor.
+      * rewrite in_app_iff. cbn. intros [H|[H|[]]]; [contradiction|subst; apply E; left; reflexivity].
+      * apply IH; [exact ND'|]. intros H. apply E. right. exact H.
+    + intros nd' i' Hg. destruct (nget nd' (info s)) as [i0|] eqn:E0.
+      * rewrite (nget_app_l nd' _ _ i0 E0) in Hg. injection Hg as <-. apply H3, E0.
+      * rewrite (nget_app_r nd' _ _ E0) in Hg. cbn in Hg. destruct (node_eqb nd nd') eqn:En; [|discriminate].
+        apply node_eqb_eq in En. subst nd'. injection Hg as <-. split; [exact HG|intros _; apply node_inv_noinfo].
+  - (* totals: every key that mattered is still read the same *)
+    apply totals_split in HT. destruct HT as (T1 & T2 & T3). apply totals_split.
+    assert (Rf : forall p, rd i_flops s p <> None -> rd i_flops s' p = rd i_flops s p) by (intros; apply rd_app_l; assumption).
+    assert (Rs : forall p, rd i_size s p <> None -> rd i_size s' p = rd i_size s p) by (intros; apply rd_app_l; assumption).
+    split; [|split].
+    + intros Ht. destruct (T1 Ht) as [Ta Tb]. split; [|intros p Hp; rewrite Rf; apply Tb, Hp].
+      change (flops_ s') with (flops_ s). rewrite Ta. f_equal. apply map_ext_in. intros p Hp. unfold cflops. rewrite Rf; [reflexivity|apply Tb, Hp].
+    + intros Ht. destruct (T2 Ht) as [Ta Tb]. split; [|intros p Hp; rewrite Rs; apply Tb, Hp].
+      change (write_ s') with (write_ s). rewrite Ta. f_equal. apply map_ext_in. intros p Hp. unfold csize. rewrite Rs; [reflexivity|apply Tb, Hp].
+    + intros Ht. destruct (T3 Ht) as (Ta & Tb & Tc). split; [exact Ta|]. split; [|intros p Hp; rewrite Rs; apply Tc, Hp].
+      intros z. change (sizes_ s') with (sizes_ s). rewrite Tb. f_equal. apply map_ext_in. intros p Hp. unfold csize. rewrite Rs; [reflexivity|apply Tc, Hp].
+Qed.
+Theorem remove_node_internal_invV nd s : InvCV s -> In nd (nkeys (children s)) -> nget nd (info s) <> None ->
+  InvCV (remove_node n nd s) /\
+  children (remove_node n nd s) = ndel nd (children s) /\ sliced (remove_node n nd s) = sliced s /\
+  (forall q, q <> nd -> nget q (info (remove_node n nd s)) = nget q (info s)) /\
+  (nget nd (info (remove_node n nd s)) = None \/ nget nd (info (remove_node n nd s)) = Some noinfo) /\
+  trk_flops (remove_node n nd s) = trk_flops s /\ trk_write (remove_node n nd s) = trk_write s /\
+  trk_size (remove_node n nd s) = trk_size s.
+Proof.
+  intros [HS HT] Hin Hk.
+  assert (E1 : length nd <> 1).
+  { intros E. assert (Hin' := Hin). apply nget_in_keys in Hin'. destruct (nget nd (children s)) as [[l r]|] eqn:Ex; [|congruence].
+    apply (leaf_not_parent _ nd l r (proj1 HS) Ex E). }
+  assert (ND : NoDup (nkeys (children s))) by apply HS.
+  apply totals_split in HT. destruct HT as (T1 & T2 & T3).
+  unfold remove_node. destruct (Nat.eqb_spec (length nd) 1) as [|_]; [contradiction|].
+  set (s1 := if trk_size s then _ else s).
+  destruct (stage_size nd s ND Hin T3) as (A1&A2&A3&A4&A5&A6&A7&A8&A9&A10). fold s1 in A1, A2, A3, A4, A5, A6, A7, A8, A9, A10.
+  assert (R1 : forall A (fld : ninfo -> option A) p, rd fld s1 p = rd fld s p) by (intros; apply rd_same, A1).
+  assert (T1' : tot_flops (nkeys (children s1)) s1).
+  { rewrite A2. apply (tot_flops_frame _ s s1); auto. }
+  set (s2 := if trk_flops s1 then _ else s1).
+  assert (ND1 : NoDup (nkeys (children s1))) by (rewrite A2; exact ND).
+  assert (Hin1 : In nd (nkeys (children s1))) by (rewrite A2; exact Hin).
+  destruct (stage_flops nd s1 ND1 Hin1 T1') as (B1&B2&B3&B4&B5&B6&B7&B8&B9&B10&B11). fold s2 in B1, B2, B3, B4, B5, B6, B7, B8, B9, B10, B11.
+  assert (R2 : forall A (fld : ninfo -> option A) p, rd fld s2 p = rd fld s p) by (intros; rewrite <- R1; apply rd_same, B1).
+  assert (T2' : tot_write (nkeys (children s2)) s2).
+  { rewrite B2, A2. apply (tot_write_frame _ s s2); auto; congruence. }
+  set (s3 := if trk_write s2 then _ else s2).
+  assert (ND2 : NoDup (nkeys (children s2))) by (rewrite B2; exact ND1).
+  assert (Hin2 : In nd (nkeys (children s2))) by (rewrite B2; exact Hin1).
+  destruct (stage_write nd s2 ND2 Hin2 T2') as (C1&C2&C3&C4&C5&C6&C7&C8&C9&C10&C11). fold s3 in C1, C2, C3, C4, C5, C6, C7, C8, C9, C10, C11.
+  assert (Ech3 : children s3 = children s) by congruence.
+  assert (Einf3 : info s3 = info s) by congruence.
+  (* the three totals, over the keys that remain, in s3 *)
+  assert (TT : tot_flops (nkeys (ndel nd (children s))) s3 /\ tot_write (nkeys (ndel nd (children s))) s3
+               /\ tot_size (nkeys (ndel nd (children s))) s3).
+  { split; [|split].
+    - rewrite A2 in B11. apply (tot_flops_frame _ s2 s3); [exact C5|exact C8| |exact B11]. intros; apply rd_same, C1.
+    - rewrite B2, A2 in C11. exact C11.
+    - apply (tot_size_frame _ s1 s3); [congruence|congruence|congruence| |exact A10]. intros. unfold rd. rewrite Einf3, A1. reflexivity. }
+  unfold nmem. rewrite Ech3.
+  assert (Hch : nget nd (children s) <> None) by (apply nget_in_keys, Hin).
+  destruct (nget nd (children s)) as [lr|] eqn:Ech; [|congruence].
+  set (s4 := set_children (ndel nd (children s)) s3).
+  assert (Hnk : ~ In nd (nkeys (ndel nd (children s)))).
+  { intros H. apply (in_nkeys_ndel nd nd _ ND) in H. tauto. }
+  destruct (nget nd (info s)) as [i0|] eqn:Ei0; [|congruence].
+  destruct (Nat.eqb_spec (length nd) N) as [EN|EN].
+  - (* the root: its info is cleared *)
+    unfold clear_info, upd_info. change (info s4) with (info s3). rewrite Einf3, Ei0.
+    set (sF := set_info _ s4).
+    split; [split|].
+    + apply (InvSV_children_del nd s (Some noinfo) HS (fun _ => eq_refl) sF);
+        [reflexivity|unfold sF; cbn; congruence|unfold sF; cbn; congruence|unfold sF; cbn; congruence|congruence|right; reflexivity].
+    + apply totals_split. change (children sF) with (ndel nd (children s)).
+      apply (totals_other_node s3 sF _ nd); auto.
+      intros p Hp. unfold sF. cbn. rewrite Einf3. apply nget_nset_other, Hp.
+    + split; [reflexivity|]. split; [unfold sF; cbn; congruence|]. split.
+      { intros q Hq. unfold sF. cbn. try rewrite Einf3. apply nget_nset_other, Hq. }
+      split; [right; unfold sF; cbn; try rewrite Einf3; apply nget_nset_same|].
+      unfold sF. cbn. repeat split; congruence.
+  - change (info s4) with (info s3). rewrite Einf3, Ei0.
+    set (sF := set_info _ s4).
+    split; [split|].
+    + apply (InvSV_children_del nd s None HS (fun E => match EN E with end) sF);
+        [reflexivity|unfold sF; cbn; congruence|unfold sF; cbn; congruence|unfold sF; cbn; congruence|congruence|left; reflexivity].
+    + apply totals_split. change (children sF) with (ndel nd (children s)).
+      apply (totals_other_node s3 sF _ nd); auto.
+      intros p Hp. unfold sF. cbn. rewrite Einf3. apply nget_ndel_other, Hp.
+    + split; [reflexivity|]. split; [unfold sF; cbn; congruence|]. split.
+      { intros q Hq. unfold sF. cbn. try rewrite Einf3. apply nget_ndel_other, Hq. }
+      split; [left; unfold sF; cbn; try rewrite Einf3; apply nget_ndel_same, HS|].
+      unfold sF. cbn. repeat split; congruence.
+Qed.
+Theorem contract_pair_invV x y s : InvCV s -> Vclosed (children s) ->
+  good_node x -> good_node y -> inrange n (x ++ y) -> nget (nunion x y) (children s) = None ->
+  V x -> V y -> V (nunion x y) ->
+  InvCV (contract_pair n x y None None None s) /\
+  children (contract_pair n x y None None None s) = nset (nunion x y) (order_pair x y) (children s) /\
+  sliced (contract_pair n x y None None None s) = sliced s /\
+  trk_flops (contract_pair n x y None None None s) = trk_flops s /\
+  trk_write (contract_pair n x y None None None s) = trk_write s /\
+  trk_size (contract_pair n x y None None None s) = trk_size s /\
+  nkeys (info (contract_pair n x y None None None s)) = nkeys (info (add_node (nunion x y) (add_node y (add_node x s)))).
+Proof.
+  intros HI HC Gx Gy HR Hnone Vx Vy Vp.
+  set (p := nunion x y) in *.
+  assert (HPxy : Permutation p (x ++ y)).
+  { apply nunion_perm; [apply (NoDup_app_elim _ _ (proj1 HR))|].
+    intros k Hky Hkx. destruct HR as [ND _].
+    clear -ND Hky Hkx. induction x as [|a x IH]; [contradiction|]. cbn in ND. inversion ND as [|? ? Hna ND']; subst.
+    destruct Hkx as [->|Hkx]; [apply Hna, in_app_iff; right; exact Hky|apply IH; assumption]. }
+  assert (Gp : good_node p).
+  { split.
+    - split; [apply (Permutation_NoDup (Permutation_sym HPxy)), HR|].
+      intros k Hk. apply HR. apply (Permutation_in _ HPxy), Hk.
+    - intros E. rewrite E in HPxy. apply Permutation_nil in HPxy. destruct Gx as [_ Hx]. destruct x; [congruence|discriminate]. }
+  (* the three _add_node calls *)
+  destruct (add_node_invV x s HI Gx) as (I1 & C1 & S1 & _ & _).
+  destruct (add_node_invV y _ I1 Gy) as (I2 & C2 & S2 & _ & _).
+  destruct (add_node_invV p _ I2 Gp) as (I3 & C3 & S3 & K3 & _).
+  unfold contract_pair. fold p.
+  set (s1 := add_node p (add_node y (add_node x s))) in *.
+  assert (Ech1 : children s1 = children s) by congruence.
+  assert (Esl1 : sliced s1 = sliced s) by congruence.
+  destruct I3 as [HS1 HT1].
+  set (K := nkeys (children s)) in *.
+  assert (HT1' : tot_flops K s1 /\ tot_write K s1 /\ tot_size K s1).
+  { unfold K. rewrite <- Ech1. apply totals_split. exact HT1. }
+  (* children[parent] = (l, r) *)
+  set (lr := order_pair x y).
+  assert (Hlr : good_node (fst lr) /\ good_node (snd lr) /\ inrange n (fst lr ++ snd lr) /\ Permutation p (fst lr ++ snd lr)).
+  { unfold lr, order_pair. destruct (if Nat.eqb (length x) (length y) then _ else _); cbn [fst snd].
+    - auto.
+    - split; [exact Gy|]. split; [exact Gx|]. split.
+      + destruct HR as [ND Hb]. split; [apply (Permutation_NoDup (Permutation_app_comm x y)), ND|].
+        intros k Hk. apply Hb. apply (Permutation_in _ (Permutation_app_comm y x)), Hk.
+      + rewrite HPxy. apply Permutation_app_comm. }
+  destruct Hlr as (Gl & Gr & HRlr & HPlr).
+  set (s2 := set_children (nset p lr (children s1)) s1).
+  assert (HS2 : InvSV s2).
+  { unfold s2. rewrite (surjective_pairing lr). apply InvSV_children_add; try assumption. rewrite Ech1. exact Hnone. }
+  assert (Hpk : ~ In p K) by (apply nget_none_notin, Hnone).
+  assert (Hch2 : nget p (children s2) = Some lr) by (unfold s2; cbn; apply nget_nset_same).
+  assert (HK2 : nkeys (children s2) = K ++ [p]).
+  { unfold s2. cbn [set_children children]. rewrite Ech1. apply nkeys_nset_notin, Hnone. }
+  assert (HT2 : tot_flops K s2 /\ tot_write K s2 /\ tot_size K s2) by exact HT1'.
+  assert (Hk2 : nget p (info s2) <> None) by exact K3.
+  assert (HC2 : Vclosed (children s2)).
+  { split; [|apply HC]. intros q l r Hq Vq. unfold s2 in Hq. cbn [set_children children] in Hq. rewrite Ech1 in Hq.
+    destruct (node_eq_dec q p) as [->|Hn].
+    - rewrite nget_nset_same in Hq. injection Hq as E. unfold lr, order_pair in E.
+      destruct (if Nat.eqb (length x) (length y) then _ else _); injection E as <- <-; auto.
+    - rewrite nget_nset_other in Hq by exact Hn. apply (proj1 HC q l r Hq Vq). }
+  destruct HT2 as (T5f & T5w & T5s).
+  (* _update_tracked *)
+  unfold update_tracked.
+  assert (Hch5 : nget p (children s2) <> None) by (rewrite Hch2; discriminate).
+  destruct (track_flopsV K p s2 HS2 HC2 Vp Gp Hch5 Hk2 T5f) as (HS6 & E6 & W6 & Z6 & M6 & T6f).
+  set (s6 := if trk_flops s2 then _ else s2) in *.
+  assert (Hk6 : nget p (info s6) <> None).
+  { apply nget_in_keys. destruct E6 as (_&_&_&_&_&_&Ek&_). unfold nkeys in *. rewrite Ek. apply nget_in_keys, Hk2. }
+  assert (T6w : tot_write K s6) by (apply (tot_write_mono K s2 s6); [apply E6|exact W6|apply E6|exact T5w]).
+  assert (T6s : tot_size K s6) by (apply (tot_size_mono K s2 s6); [apply E6|exact Z6|exact M6|apply E6|exact T5s]).
+  assert (HC6 : Vclosed (children s6)) by (destruct E6 as (Ec6&_); rewrite Ec6; exact HC2).
+  destruct (track_writeV K p s6 HS6 HC6 Vp Gp Hk6 T6w) as (HS7 & E7 & F7 & Z7 & M7 & T7w).
+  set (s7 := if trk_write s6 then _ else s6) in *.
+  assert (Hk7 : nget p (info s7) <> None).
+  { apply nget_in_keys. destruct E7 as (_&_&_&_&_&_&Ek&_). unfold nkeys in *. rewrite Ek. apply nget_in_keys, Hk6. }
+  assert (T7f : tot_flops (K ++ [p]) s7) by (apply (tot_flops_mono _ s6 s7); [apply E7|exact F7|apply E7|exact T6f]).
+  assert (T7s : tot_size K s7) by (apply (tot_size_mono K s6 s7); [apply E7|exact Z7|exact M7|apply E7|exact T6s]).
+  assert (HC7 : Vclosed (children s7)) by (destruct E7 as (Ec7&_); rewrite Ec7; exact HC6).
+  destruct (track_sizeV K p s7 HS7 HC7 Vp Gp Hk7 T7s) as (HS8 & E8 & F8 & W8 & T8s).
+  set (s8 := if trk_size s7 then _ else s7) in *.
+  assert (Ech8 : children s8 = children s2).
+  { destruct E8 as (A&_), E7 as (B&_), E6 as (C&_). congruence. }
+  split; [split; [exact HS8|]|].
+  - apply totals_split. rewrite Ech8, HK2. split; [|split; [|exact T8s]].
+    + apply (tot_flops_mono _ s7 s8); [apply E8|exact F8|apply E8|exact T7f].
+    + apply (tot_write_mono _ s7 s8); [apply E8|exact W8|apply E8|exact T7w].
+  - destruct E8 as (_&X2&_&X4&X5&X6&X7&_), E7 as (_&Y2&_&Y4&Y5&Y6&Y7&_), E6 as (_&U2&_&U4&U5&U6&U7&_).
+    split; [rewrite Ech8; unfold s2; cbn [set_children children]; rewrite Ech1; reflexivity|].
+    split; [rewrite X2, Y2, U2; exact Esl1|].
+    assert (Ft : trk_flops s1 = trk_flops s /\ trk_write s1 = trk_write s /\ trk_size s1 = trk_size s).
+    { unfold s1, add_node. repeat (match goal with |- context [if ?c then _ else _] => destruct c end); cbn; auto. }
+    destruct Ft as (Ft1 & Ft2 & Ft3).
+    split; [rewrite X4, Y4, U4; exact Ft1|]. split; [rewrite X5, Y5, U5; exact Ft2|]. split; [rewrite X6, Y6, U6; exact Ft3|].
+    unfold nkeys in *. rewrite X7, Y7, U7. reflexivity.
+Qed.
+
+(* frames: the getters only write the caches of nodes in V *)
+Definition FrameV (s s' : tstate) : Prop :=
+  children s' = children s /\ forall q, ~ V q -> nget q (info s') = nget q (info s).
+Lemma FrameV_refl s : FrameV s s.
+Proof. split; auto. Qed.
+Lemma FrameV_trans s1 s2 s3 : FrameV s1 s2 -> FrameV s2 s3 -> FrameV s1 s3.
+Proof. intros [A1 A2] [B1 B2]. split; [congruence|]. intros q Hq. rewrite B2, A2 by exact Hq. reflexivity. Qed.
+Lemma FrameV_upd nd f s : V nd -> FrameV s (upd_info nd f s).
+Proof.
+  intros HV. split; [apply upd_info_fields|]. intros q Hq. apply nget_upd_other. intros ->. contradiction.
+Qed.
+Lemma FrameV_same s s' : children s' = children s -> info s' = info s -> FrameV s s'.
+Proof. intros E1 E2. split; [exact E1|]. intros q _. rewrite E2. reflexivity. Qed.
+
+Definition FlV (f : nat) : Prop := forall s nd, Vclosed (children s) -> V nd -> FrameV s (fst (get_legs n f s nd)).
+Definition FiV (f : nat) : Prop := forall s nd, Vclosed (children s) -> V nd -> FrameV s (fst (get_involved n f s nd)).
+Lemma frames_step f' : FlV f' /\ FiV f' -> FlV (S f') /\ FiV (S f').
+Proof.
+  intros [HFl HFi]. split.
+  - intros s nd HC HV. rewrite get_legs_S. destruct (rd i_legs s nd); [apply FrameV_refl|].
+    destruct (Nat.eqb (length nd) 1).
+    { unfold compute_leaf_legs. cbn [fst]. eapply FrameV_trans; [|apply FrameV_upd, HV].
+      destruct (leaf_preproc n (sliced s) (hd 0 nd)); [apply FrameV_same; reflexivity|apply FrameV_refl]. }
+    destruct (Nat.eqb (length nd) N); [cbn [fst]; apply FrameV_upd, HV|].
+    pose proof (HFi s nd HC HV) as F1. destruct (get_involved n f' s nd) as [s2 [inv|]]; cbn [fst] in *.
+    + eapply FrameV_trans; [exact F1|apply FrameV_upd, HV].
+    + assert (Hfold : forall xs s2 acc, Vclosed (children s2) -> (forall k, In k xs -> V [k]) ->
+                FrameV s2 (fst (fold_left (fun acc i => let '(sa, l) := get_legs n f' (fst acc) [i] in (sa, snd acc ++ [l])) xs (s2, acc)))).
+      { induction xs as [|x xs IH]; intros sx acc HCx Hx; cbn [fold_left]; [apply FrameV_refl|]. cbn [fst snd].
+        pose proof (HFl sx [x] HCx (Hx x (or_introl eq_refl))) as Fx. destruct (get_legs n f' sx [x]) as [sa l]. cbn [fst] in Fx.
+        eapply FrameV_trans; [exact Fx|]. apply IH; [destruct Fx as [E _]; rewrite E; exact HCx|]. intros k Hk. apply Hx. right. exact Hk. }
+      assert (HC2 : Vclosed (children s2)) by (destruct F1 as [E _]; rewrite E; exact HC).
+      specialize (Hfold nd s2 [] HC2 (fun k Hk => proj2 HC nd k HV Hk)).
+      destruct (fold_left _ nd (s2, [])) as [s3 ls]. cbn [fst] in *.
+      eapply FrameV_trans; [exact F1|]. eapply FrameV_trans; [exact Hfold|apply FrameV_upd, HV].
+  - intros s nd HC HV. rewrite get_involved_S. destruct (rd i_involved s nd); [apply FrameV_refl|].
+    destruct (Nat.eqb (length nd) 1); [cbn [fst]; apply FrameV_upd, HV|].
+    destruct (nget nd (children s)) as [[l r]|] eqn:E; [|apply FrameV_refl].
+    destruct (proj1 HC nd l r E HV) as [Vl Vr].
+    pose proof (HFl s l HC Vl) as F1. destruct (get_legs n f' s l) as [s1 ll]. cbn [fst] in F1.
+    assert (HC1 : Vclosed (children s1)) by (destruct F1 as [E1 _]; rewrite E1; exact HC).
+    pose proof (HFl s1 r HC1 Vr) as F2. destruct (get_legs n f' s1 r) as [s2 lr]. cbn [fst] in F2. cbn [fst].
+    eapply FrameV_trans; [exact F1|]. eapply FrameV_trans; [exact F2|apply FrameV_upd, HV].
+Qed.
+Lemma frames_all f : FlV f /\ FiV f.
+Proof.
+  induction f as [|f IH]; [|apply frames_step, IH]. split; intros s nd _ _; cbn; apply FrameV_same; reflexivity.
+Qed.
+Lemma g_legs_frame s nd : Vclosed (children s) -> V nd -> FrameV s (fst (g_legs n s nd)).
+Proof. apply (proj1 (frames_all (fuel n s))). Qed.
+Lemma g_involved_frame s nd : Vclosed (children s) -> V nd -> FrameV s (fst (g_involved n s nd)).
+Proof.
+  intros HC HV. unfold g_involved. pose proof (proj2 (frames_all (fuel n s)) s nd HC HV) as F.
+  destruct (get_involved n (fuel n s) s nd) as [s' [v|]]; cbn [fst] in *; [exact F|].
+  eapply FrameV_trans; [exact F|apply FrameV_same; reflexivity].
+Qed.
+Lemma g_size_frame s nd : Vclosed (children s) -> V nd -> FrameV s (fst (g_size n s nd)).
+Proof.
+  intros HC HV. unfold g_size. destruct (rd i_size s nd); [apply FrameV_refl|].
+  pose proof (g_legs_frame s nd HC HV) as F. destruct (g_legs n s nd) as [s1 l]. cbn [fst] in *.
+  eapply FrameV_trans; [exact F|apply FrameV_upd, HV].
+Qed.
+Lemma g_flops_frame s nd : Vclosed (children s) -> V nd -> FrameV s (fst (g_flops n s nd)).
+Proof.
+  intros HC HV. unfold g_flops. destruct (rd i_flops s nd); [apply FrameV_refl|].
+  destruct (Nat.eqb (length nd) 1); [cbn [fst]; apply FrameV_upd, HV|].
+  pose proof (g_involved_frame s nd HC HV) as F. destruct (g_involved n s nd) as [s1 inv]. cbn [fst] in *.
+  eapply FrameV_trans; [exact F|apply FrameV_upd, HV].
+Qed.
+
+Lemma add_node_frame nd s : V nd -> FrameV s (add_node nd s).
+Proof.
+  intros HV. unfold add_node, nmem. destruct (nget nd (info s)) eqn:E; [apply FrameV_refl|].
+  split; [reflexivity|]. intros q Hq. cbn. destruct (nget q (info s)) as [i|] eqn:Eq.
+  - apply nget_app_l, Eq.
+  - rewrite (nget_app_r q _ _ Eq). cbn. destruct (node_eqb nd q) eqn:En; [|reflexivity].
+    apply node_eqb_eq in En. subst. contradiction.
+Qed.
+Lemma update_tracked_frame p s : Vclosed (children s) -> V p -> FrameV s (update_tracked n p s).
+Proof.
+  intros HC HV. unfold update_tracked.
+  set (s1 := if trk_flops s then _ else s).
+  assert (F1 : FrameV s s1).
+  { unfold s1. destruct (trk_flops s); [|apply FrameV_refl]. pose proof (g_flops_frame s p HC HV) as F.
+    destruct (g_flops n s p) as [sa fl]. cbn [fst] in F. eapply FrameV_trans; [exact F|apply FrameV_same; reflexivity]. }
+  assert (HC1 : Vclosed (children s1)) by (destruct F1 as [E _]; rewrite E; exact HC).
+  set (s2 := if trk_write s1 then _ else s1).
+  assert (F2 : FrameV s1 s2).
+  { unfold s2. destruct (trk_write s1); [|apply FrameV_refl]. pose proof (g_size_frame s1 p HC1 HV) as F.
+    destruct (g_size n s1 p) as [sa sz]. cbn [fst] in F. eapply FrameV_trans; [exact F|apply FrameV_same; reflexivity]. }
+  assert (HC2 : Vclosed (children s2)) by (destruct F2 as [E _]; rewrite E; exact HC1).
+  eapply FrameV_trans; [exact F1|]. eapply FrameV_trans; [exact F2|].
+  destruct (trk_size s2); [|apply FrameV_refl]. pose proof (g_size_frame s2 p HC2 HV) as F.
+  destruct (g_size n s2 p) as [sa sz]. cbn [fst] in F. eapply FrameV_trans; [exact F|apply FrameV_same; reflexivity].
+Qed.
+Lemma contract_pair_frame x y s : Vclosed (children s) -> V x -> V y -> V (nunion x y) ->
+  forall q, ~ V q -> nget q (info (contract_pair n x y None None None s)) = nget q (info s).
+Proof.
+  intros HC Vx Vy Vp q Hq. unfold contract_pair.
+  set (s1 := add_node (nunion x y) (add_node y (add_node x s))).
+  assert (F1 : FrameV s s1).
+  { unfold s1. eapply FrameV_trans; [apply add_node_frame, Vx|]. eapply FrameV_trans; [apply add_node_frame, Vy|apply add_node_frame, Vp]. }
+  set (s2 := set_children _ s1).
+  assert (HC2 : Vclosed (children s2)).
+  { split; [|apply HC]. intros q' l r Hq' Vq'. unfold s2 in Hq'. cbn [set_children children] in Hq'.
+    destruct F1 as [E1 _]. rewrite E1 in Hq'. destruct (node_eq_dec q' (nunion x y)) as [->|Hn].
+    - rewrite nget_nset_same in Hq'. injection Hq' as E. unfold order_pair in E.
+      destruct (if Nat.eqb (length x) (length y) then _ else _); injection E as <- <-; auto.
+    - rewrite nget_nset_other in Hq' by exact Hn. apply (proj1 HC q' l r Hq' Vq'). }
+  destruct (update_tracked_frame (nunion x y) s2 HC2 Vp) as [_ F2]. rewrite F2 by exact Hq.
+  change (info s2) with (info s1). apply F1, Hq.
+Qed.
+
+End VV.
+
+
+(* canonical representatives of the specification (witnesses of legs_ok / inv_ok) *)
+Lemma lget_mapf (f : ix -> nat) j L : lget j (map (fun k => (k, f k)) L) = if memb j L then Some (f j) else None.
+Proof.
+  induction L as [|a L IH]; cbn; [reflexivity|]. rewrite (Nat.eqb_sym j a).
+  destruct (Nat.eqb_spec a j) as [->|]; cbn; [reflexivity|exact IH].
+Qed.
+Lemma wfl_mapf (f : ix -> nat) L : NoDup L -> (forall k, In k L -> 0 < f k) -> wfl (map (fun k => (k, f k)) L).
+Proof.
+  intros ND Hp. split.
+  - unfold lkeys. rewrite map_map. cbn. rewrite map_id. exact ND.
+  - intros kv Hkv. apply in_map_iff in Hkv. destruct Hkv as (k & <- & Hk). cbn. apply Hp, Hk.
+Qed.
+Lemma spec_pos_univ sl0 nd j : 0 < spec_count n sl0 nd j -> In j (universe n).
+Proof.
+  unfold spec_count. intros H. apply (cnt_pos_in_universe n sl0 nd j). destruct (cnt n sl0 nd j <? appear n j); lia.
+Qed.
+Definition canon_legs (sl0 : list slinfo) (nd : node) : legs :=
+  if Nat.eqb (length nd) N then root_legs n sl0
+  else map (fun j => (j, spec_count n sl0 nd j)) (filter (fun j => Nat.ltb 0 (spec_count n sl0 nd j)) (universe n)).
+Lemma canon_legs_ok sl0 nd : legs_ok n sl0 nd (canon_legs sl0 nd).
+Proof.
+  unfold canon_legs. destruct (Nat.eqb_spec (length nd) N) as [E|E]; [apply legs_ok_root, E|].
+  apply legs_ok_nonroot; [exact E|]. split.
+  - apply wfl_mapf; [apply NoDup_filter, NoDup_nodup|]. intros k Hk. apply filter_In in Hk. destruct Hk as [_ Hk]. lia.
+  - intros j. unfold lget0. rewrite lget_mapf, memb_filter.
+    destruct (memb j (universe n)) eqn:Em; cbn [andb].
+    + destruct (Nat.ltb_spec 0 (spec_count n sl0 nd j)); [reflexivity|lia].
+    + destruct (spec_count n sl0 nd j) eqn:Es; [reflexivity|]. apply memb_false in Em. exfalso. apply Em, (spec_pos_univ sl0 nd j). lia.
+Qed.
+Definition canon_inv (sl0 : list slinfo) (l r : node) : legs :=
+  map (fun j => (j, spec_count n sl0 l j + spec_count n sl0 r j))
+      (filter (fun j => Nat.ltb 0 (spec_count n sl0 l j + spec_count n sl0 r j)) (universe n)).
+Lemma canon_inv_ok sl0 l r : inv_ok n sl0 l r (canon_inv sl0 l r).
+Proof.
+  unfold canon_inv. split.
+  - apply wfl_mapf; [apply NoDup_filter, NoDup_nodup|]. intros k Hk. apply filter_In in Hk. destruct Hk as [_ Hk]. lia.
+  - intros j. unfold lget0. rewrite lget_mapf, memb_filter.
+    destruct (memb j (universe n)) eqn:Em; cbn [andb].
+    + destruct (Nat.ltb_spec 0 (spec_count n sl0 l j + spec_count n sl0 r j)); [reflexivity|lia].
+    + apply memb_false in Em. destruct (spec_count n sl0 l j) eqn:E1; [destruct (spec_count n sl0 r j) eqn:E2; [reflexivity|]|].
+      * exfalso. apply Em, (spec_pos_univ sl0 r j). lia.
+      * exfalso. apply Em, (spec_pos_univ sl0 l j). lia.
+Qed.
+
+(* ======================================================================== *)
+(* Part Q : restore_ind                                                      *)
+Section RestoreInd.
+Variable sl sl' : list slinfo.       (* before / after restoring ind *)
+Variable ind : ix.
+Hypothesis Hrem : forall j, In j (removed sl) <-> j = ind \/ In j (removed sl').
+Hypothesis Hfresh : ~ In ind (removed sl').
+Hypothesis Hinc : incl (output n) (concat (inputs n)).
+
+Lemma spec_old S j : spec_count n sl S j = if Nat.eqb j ind then 0 else spec_count n sl' S j.
+Proof. apply (spec_more sl' sl ind Hrem). Qed.
+Lemma cnt_eq_raw S : cnt n sl' S ind = cnt_raw n S ind.
+Proof.
+  induction S as [|k S IH]; cbn [cnt cnt_raw]; [reflexivity|]. rewrite IH. f_equal.
+  unfold term_sl. rewrite occ_filter. assert (E : memb ind (removed sl') = false) by (apply memb_false, Hfresh).
+  rewrite E. reflexivity.
+Qed.
+Lemma spec_union_zero l r : inrange n (l ++ r) -> spec_count n sl' l ind = 0 -> spec_count n sl' r ind = 0 ->
+  spec_count n sl' (l ++ r) ind = 0.
+Proof.
+  intros HR. pose proof (cnt_le_appear n sl' _ ind HR) as Hle. rewrite cnt_app in Hle.
+  unfold spec_count. rewrite cnt_app.
+  repeat match goal with |- context [?a <? ?b] => destruct (Nat.ltb_spec a b) end; lia.
+Qed.
+Lemma root_ind_involved l r : Permutation (seq 0 N) (l ++ r) -> In ind (output n) ->
+  0 < spec_count n sl' l ind + spec_count n sl' r ind.
+Proof.
+  intros HP Hout'.
+  assert (Hc : cnt n sl' l ind + cnt n sl' r ind = occ (concat (inputs n)) ind).
+  { rewrite <- cnt_app, <- (cnt_perm n sl' _ _ ind HP), cnt_eq_raw. apply cnt_raw_all. }
+  assert (Hpos : 0 < occ (concat (inputs n)) ind) by (apply occ_pos, Hinc, Hout').
+  assert (Hap : occ (concat (inputs n)) ind < appear n ind).
+  { rewrite appear_occ. assert (0 < occ (output n) ind) by (apply occ_pos, Hout'). lia. }
+  unfold spec_count. repeat match goal with |- context [?a <? ?b] => destruct (Nat.ltb_spec a b) end; lia.
+Qed.
+
+(* a node none of whose children carries the restored index keeps valid caches *)
+Lemma unaffected_node ch p i l r ll lr :
+  children_ok ch -> nget p ch = Some (l, r) -> good_node p ->
+  node_inv ch sl p i ->
+  slegs_ok n sl' l ll -> slegs_ok n sl' r lr -> lmem ind ll = false -> lmem ind lr = false ->
+  node_inv ch sl' p i.
+Proof.
+  intros Hc Ech Gp (A&B&C&D) [Wl Gl] [Wr Gr] El Er.
+  pose proof (proj2 Hc) as Hc'. destruct (Hc' p l r Ech) as (Gl' & Gr' & HR & HP).
+  assert (Zl : spec_count n sl' l ind = 0).
+  { rewrite <- Gl. apply lget0_notin, lmem_false_notin, El. }
+  assert (Zr : spec_count n sl' r ind = 0).
+  { rewrite <- Gr. apply lget0_notin, lmem_false_notin, Er. }
+  assert (Zp : spec_count n sl' p ind = 0).
+  { rewrite (spec_count_perm n sl' _ _ ind HP). apply spec_union_zero; assumption. }
+  assert (Hspec : forall S, spec_count n sl' S ind = 0 -> forall j, spec_count n sl S j = spec_count n sl' S j).
+  { intros S Z j. rewrite spec_old. destruct (Nat.eqb_spec j ind) as [->|]; [symmetry; exact Z|reflexivity]. }
+  assert (Ti : forall inv, inv_ok n sl l r inv -> inv_ok n sl' l r inv).
+  { intros inv [W G]. split; [exact W|]. intros j. rewrite G, (Hspec l Zl), (Hspec r Zr). reflexivity. }
+  assert (Tl : forall lg, legs_ok n sl p lg -> legs_ok n sl' p lg).
+  { intros lg Hl. unfold legs_ok in *. destruct (Nat.eqb_spec (length p) N) as [EN|EN].
+    - destruct Hl as [ND G]. split; [exact ND|]. intros j. rewrite G, (root_legs_more sl' sl ind Hrem).
+      destruct (Nat.eqb_spec j ind) as [->|]; [|reflexivity].
+      destruct (lget ind (root_legs n sl')) eqn:Eo; [|reflexivity]. exfalso.
+      assert (Hin : In ind (lkeys (root_legs n sl'))) by (apply lget_in_keys; congruence).
+      unfold root_legs, lkeys in Hin. rewrite map_map in Hin. cbn in Hin. rewrite map_id in Hin. apply filter_In in Hin.
+      assert (HPall : Permutation (seq 0 N) (l ++ r)).
+      { apply Permutation_trans with p; [|exact HP]. apply NoDup_Permutation_bis; [apply seq_NoDup|rewrite seq_length; lia|].
+        intros k Hk. destruct Gp as [[NDp Hb] _].
+        assert (Hincl : incl p (seq 0 N)) by (intros a Ha; apply in_seq; specialize (Hb a Ha); lia).
+        assert (HPp : Permutation p (seq 0 N)) by (apply NoDup_Permutation_bis; [exact NDp|rewrite seq_length; lia|exact Hincl]).
+        apply (Permutation_in _ (Permutation_sym HPp)), Hk. }
+      pose proof (root_ind_involved l r HPall (proj1 Hin)). lia.
+    - destruct Hl as [W G]. split; [exact W|]. intros j. rewrite G. apply (Hspec p Zp). }
+  pose proof (canon_legs_ok sl p) as WL. pose proof (canon_inv_ok sl l r) as WI.
+  unfold node_inv. repeat split.
+  - intros lg E. apply Tl, A, E.
+  - intros inv E. right. exists l, r. split; [exact Ech|]. apply Ti.
+    destruct (B inv E) as [[E1 _]|(l2 & r2 & E2 & Hok)]; [exfalso; apply (leaf_not_parent ch p l r Hc Ech E1)|].
+    rewrite Ech in E2. injection E2 as <- <-. exact Hok.
+  - intros z Hz lg' Hlg'. rewrite (C z Hz _ WL). apply (legs_ok_size_unique n sl' _ p); [apply Tl, WL|exact Hlg'].
+  - intros z Hz. right. exists l, r. split; [exact Ech|]. intros inv' Hinv'.
+    destruct (D z Hz) as [[E1 _]|(l2 & r2 & E2 & F)]; [exfalso; apply (leaf_not_parent ch p l r Hc Ech E1)|].
+    rewrite Ech in E2. injection E2 as <- <-. rewrite (F _ WI). apply (inv_ok_size_unique n sl' _ l r); [apply Ti, WI|exact Hinv'].
+Qed.
+
+(* a leaf whose term does not carry the index *)
+Lemma leaf_node_same_rev ch k i : children_ok ch -> ~ In ind (nth k (inputs n) []) -> node_inv ch sl [k] i -> node_inv ch sl' [k] i.
+Proof.
+  intros Hc Hn (A&B&C&D).
+  assert (Hiff : forall lg, legs_ok n sl' [k] lg <-> legs_ok n sl [k] lg) by (intros lg; apply (leaf_legs_ok_same sl' sl ind Hrem k lg Hn)).
+  unfold node_inv. repeat split.
+  - intros lg Hl. apply Hiff, A, Hl.
+  - intros inv Hi. destruct (B inv Hi) as [Hl|(l & r & E & _)]; [left; exact Hl|].
+    exfalso. apply (leaf_not_parent ch [k] l r Hc E). reflexivity.
+  - intros z Hz lg Hl. apply (C z Hz). apply Hiff, Hl.
+  - intros z Hz. destruct (D z Hz) as [Hl|(l & r & E & _)]; [left; exact Hl|].
+    exfalso. apply (leaf_not_parent ch [k] l r Hc E). reflexivity.
+Qed.
+End RestoreInd.
+
+Lemma InvSV_extend (V V' : node -> Prop) s : InvSV V s ->
+  (forall nd i, nget nd (info s) = Some i -> V' nd -> ~ V nd -> node_inv (children s) (sliced s) nd i) ->
+  (forall nd, V nd \/ ~ V nd) ->
+  InvSV V' s.
+Proof.
+  intros (H1&H2&H3&H5) Hnew Hdec. unfold InvSV. split; [exact H1|]. split; [exact H2|]. split; [|exact H5].
+  intros nd i Hi. destruct (H3 nd i Hi) as [G Hv]. split; [exact G|]. intros HV'.
+  destruct (Hdec nd) as [HV|HnV]; [apply Hv, HV|apply (Hnew nd i Hi HV' HnV)].
+Qed.
+Lemma node_inv_children_ext ch ch' sl0 q i : nget q ch' = nget q ch -> node_inv ch sl0 q i -> node_inv ch' sl0 q i.
+Proof.
+  intros E (A&B&C&D). unfold node_inv, inv_spec, flops_spec in *. rewrite E. repeat split; assumption.
+Qed.
+Lemma contract_stats_id s : trk_flops s = true -> trk_write s = true -> trk_size s = true -> contract_stats n false s = s.
+Proof. intros E1 E2 E3. unfold contract_stats. rewrite E1, E2, E3. reflexivity. Qed.
+
+Definition Vof (P : list node) (nd : node) : Prop := length nd = 1 \/ In nd P.
+Lemma Vof_dec P nd : Vof P nd \/ ~ Vof P nd.
+Proof.
+  unfold Vof. destruct (Nat.eq_dec (length nd) 1) as [E|E]; [left; left; exact E|].
+  destruct (in_dec node_eq_dec nd P) as [H|H]; [left; right; exact H|right; intros [H1|H1]; contradiction].
+Qed.
+Lemma Vof_mono P p nd : Vof P nd -> Vof (p :: P) nd.
+Proof. intros [H|H]; [left; exact H|right; right; exact H]. Qed.
+
+(* phase A of restore_ind: the leaves whose term carries the index are reset *)
+Definition leafstep (ind : ix) (s : tstate) (i : nat) : tstate :=
+  let term := nth i (inputs n) [] in
+  if memb ind term then
+    let sa := remove_node n [i] s in
+    if forallb (fun j => negb (memb j (removed (sliced sa)))) term
+    then set_sliced_inputs (filter (fun k => negb (Nat.eqb k i)) (sliced_inputs sa)) sa
+    else sa
+  else s.
+Definition SameButLeaves (ind : ix) (L : list nat) (s s' : tstate) : Prop :=
+  children s' = children s /\ sliced s' = sliced s /\ mult s' = mult s /\
+  trk_flops s' = trk_flops s /\ trk_write s' = trk_write s /\ trk_size s' = trk_size s /\
+  flops_ s' = flops_ s /\ write_ s' = write_ s /\ sizes_ s' = sizes_ s /\ sizes_max s' = sizes_max s /\
+  nkeys (info s') = nkeys (info s) /\
+  (forall q, (exists k, q = [k] /\ In k L /\ In ind (nth k (inputs n) [])) ->
+             nget q (info s') = option_map (fun _ => noinfo) (nget q (info s))) /\
+  (forall q, ~ (exists k, q = [k] /\ In k L /\ In ind (nth k (inputs n) [])) -> nget q (info s') = nget q (info s)).
+Lemma leafstep_same ind s k : SameButLeaves ind [k] s (leafstep ind s k).
+Proof.
+  unfold leafstep. destruct (memb ind (nth k (inputs n) [])) eqn:Em.
+  2:{ unfold SameButLeaves. repeat split; try reflexivity.
+      intros q (k' & -> & [<-|[]] & Hin). apply memb_In in Hin. congruence. }
+  set (sa := remove_node n [k] s).
+  assert (Hsa : SameButLeaves ind [k] s sa).
+  { unfold sa, remove_node. cbn [length Nat.eqb hd]. unfold clear_info.
+    destruct (upd_info_fields [k] (fun _ => noinfo) s) as (F1&F2&F3&F4&F5&F6&F7&F8&F9&F10).
+    unfold SameButLeaves. cbn [set_preproc children sliced mult trk_flops trk_write trk_size flops_ write_ sizes_ sizes_max info].
+    repeat split; try assumption.
+    - apply nkeys_upd.
+    - intros q (k' & -> & [<-|[]] & _). apply nget_upd_same.
+    - intros q Hq. apply nget_upd_other. intros ->. apply Hq. exists k. split; [reflexivity|]. split; [left; reflexivity|apply memb_In, Em]. }
+  destruct (forallb _ _); [|exact Hsa].
+  unfold SameButLeaves in *. cbn [set_sliced_inputs children sliced mult trk_flops trk_write trk_size flops_ write_ sizes_ sizes_max info]. exact Hsa.
+Qed.
+Lemma NoDup_app_disjoint {A} (a b : list A) : NoDup (a ++ b) -> forall x, In x a -> In x b -> False.
+Proof.
+  induction a as [|y a IH]; cbn; intros ND x Ha Hb; [contradiction|]. inversion ND as [|? ? Hn ND']; subst.
+  destruct Ha as [->|Ha]; [apply Hn, in_app_iff; right; exact Hb|apply (IH ND' x Ha Hb)].
+Qed.
+Lemma SameButLeaves_trans ind L1 L2 s1 s2 s3 : NoDup (L1 ++ L2) ->
+  SameButLeaves ind L1 s1 s2 -> SameButLeaves ind L2 s2 s3 -> SameButLeaves ind (L1 ++ L2) s1 s3.
+Proof.
+  intros ND (A1&A2&A3&A4&A5&A6&A7&A8&A9&A10&A11&A12&A13) (B1&B2&B3&B4&B5&B6&B7&B8&B9&B10&B11&B12&B13).
+  unfold SameButLeaves. repeat split; try congruence.
+  - intros q (k & -> & Hk & Hin). apply in_app_iff in Hk. destruct Hk as [Hk|Hk].
+    + rewrite B13, A12; [reflexivity|exists k; auto|].
+      intros (k' & E & Hk' & _). injection E as <-. apply (NoDup_app_disjoint _ _ ND k Hk Hk').
+    + rewrite B12 by (exists k; auto). rewrite A13; [reflexivity|].
+      intros (k' & E & Hk' & _). injection E as <-. apply (NoDup_app_disjoint _ _ ND k Hk' Hk).
+  - intros q Hq. rewrite B13, A13; [reflexivity| |].
+    + intros (k & -> & Hk & Hin). apply Hq. exists k. split; [reflexivity|]. split; [apply in_app_iff; left; exact Hk|exact Hin].
+    + intros (k & -> & Hk & Hin). apply Hq. exists k. split; [reflexivity|]. split; [apply in_app_iff; right; exact Hk|exact Hin].
+Qed.
+
+Lemma leaf_fold_same ind L : forall s, NoDup L -> SameButLeaves ind L s (fold_left (leafstep ind) L s).
+Proof.
+  induction L as [|k L IH]; intros s ND; cbn [fold_left].
+  - unfold SameButLeaves. repeat split; try reflexivity. intros q (k & _ & [] & _).
+  - inversion ND as [|? ? Hn ND']; subst. apply (SameButLeaves_trans ind [k] L s (leafstep ind s k)); [exact ND|apply leafstep_same|apply IH, ND'].
+Qed.
+
+Section RestoreLoop.
+Variable sl sl' : list slinfo.
+Variable ind : ix.
+Hypothesis Hrem : forall j, In j (removed sl) <-> j = ind \/ In j (removed sl').
+Hypothesis Hfresh : ~ In ind (removed sl').
+Hypothesis Hinc : incl (output n) (concat (inputs n)).
+
+Definition full2 (i : ninfo) : Prop := i_legs i <> None /\ i_involved i <> None.
+(* loop invariant: P = the traversal nodes already handled *)
+Definition RInv (K0 : list node) (P : list node) (s : tstate) : Prop :=
+  InvCV (Vof P) s /\ Vclosed (Vof P) (children s) /\ sliced s = sl' /\
+  trk_flops s = true /\ trk_write s = true /\ trk_size s = true /\
+  (forall q, In q (nkeys (children s)) <-> In q K0) /\
+  (forall q, In q K0 -> nget q (info s) <> None) /\
+  (forall p l r, nget p (children s) = Some (l, r) -> ~ In p P -> nunion l r = p) /\
+  (forall nd i, nget nd (info s) = Some i -> length nd <> 1 -> ~ In nd P ->
+     node_inv (children s) sl nd i /\ In nd K0).
+
+Definition loop_body (s : tstate) (plr : node * (node * node)) : tstate :=
+  let '(p, (l, r)) := plr in
+  let '(sa, ll) := g_legs n s l in
+  let '(sb, hit) := if lmem ind ll then (sa, true)
+                    else let '(sb, lr) := g_legs n sa r in (sb, lmem ind lr) in
+  if hit then contract_pair n l r None None None (remove_node n p sb) else sb.
+
+(* a getter call on a node of V keeps the loop invariant *)
+Lemma RInv_getter K0 P s c : RInv K0 P s -> Vof P c -> good_node c ->
+  RInv K0 P (fst (g_legs n s c)) /\ legs_ok n sl' c (snd (g_legs n s c)) /\
+  children (fst (g_legs n s c)) = children s.
+Proof.
+  intros ([HS HT] & HC & Esl & Tf & Tw & Ts & HK & HKi & HU & Hun) Vc Gc.
+  destruct (g_legs_invV (Vof P) s c HS HC Vc Gc) as (A & B & C).
+  destruct (g_legs_frame (Vof P) s c HC Vc) as [Ech Fr].
+  set (sa := fst (g_legs n s c)) in *.
+  assert (B' := B). destruct B' as (_&E2&_&E4&E5&E6&_&_&_&_&_&Ek&_).
+  split; [|split; [rewrite <- Esl; exact C|exact Ech]].
+  split; [split; [exact A|apply (totals_Ext s); assumption]|].
+  split; [rewrite Ech; exact HC|]. split; [congruence|]. split; [congruence|]. split; [congruence|]. split; [congruence|].
+  split; [rewrite Ech; exact HK|]. split.
+  - intros q Hq. apply nget_in_keys. unfold nkeys in *. rewrite Ek. apply nget_in_keys, HKi, Hq.
+  - split; [rewrite Ech; exact HU|]. intros nd i Hi Hl HnP. rewrite Ech. apply Hun; [|exact Hl|exact HnP].
+    rewrite <- Fr; [exact Hi|]. intros [H|H]; contradiction.
+Qed.
+
+Lemma Vclosed_Vof_leaf P ch : (forall p l r, nget p ch = Some (l, r) -> Vof P p -> Vof P l /\ Vof P r) -> Vclosed (Vof P) ch.
+Proof. intros H. split; [exact H|]. intros nd k _ _. left. reflexivity. Qed.
+
+Lemma RInv_step K0 P s p l r : RInv K0 P s -> nget p (children s) = Some (l, r) -> ~ In p P ->
+  Vof P l -> Vof P r -> In p K0 ->
+  RInv K0 (p :: P) (loop_body s (p, (l, r))) /\
+  (forall q, q <> p -> nget q (children (loop_body s (p, (l, r)))) = nget q (children s)).
+Proof.
+  intros HR Ech HnP Vl Vr HpK.
+  assert (HR0 := HR). destruct HR0 as ([HS0 _] & _).
+  destruct (proj2 (proj1 HS0) p l r Ech) as (Gl & Gr & HRlr & HPp).
+  assert (Gp : good_node p).
+  { split; [apply (perm_inrange _ _ HPp HRlr)|]. intros ->. apply Permutation_nil in HPp. destruct Gl as [_ Hl]. destruct l; [congruence|discriminate]. }
+  assert (Ll : length l <> N /\ length r <> N).
+  { pose proof (Permutation_length HPp) as HL. rewrite app_length in HL. pose proof (good_len p Gp). pose proof (good_len l Gl). pose proof (good_len r Gr). lia. }
+  unfold loop_body.
+  destruct (RInv_getter K0 P s l HR Vl Gl) as (R1 & L1 & C1).
+  destruct (g_legs n s l) as [sa ll]. cbn [fst snd] in R1, L1, C1.
+  apply legs_ok_nonroot in L1; [|apply Ll].
+  (* the state after the (one or two) getter calls, and whether the index was seen *)
+  assert (Hmid : exists sb hit,
+            (if lmem ind ll then (sa, true) else let '(sb, lr) := g_legs n sa r in (sb, lmem ind lr)) = (sb, hit) /\
+            RInv K0 P sb /\ children sb = children s /\
+            (hit = false -> exists lr, slegs_ok n sl' r lr /\ lmem ind ll = false /\ lmem ind lr = false)).
+  { destruct (lmem ind ll) eqn:El.
+    - exists sa, true. split; [reflexivity|]. split; [exact R1|]. split; [exact C1|discriminate].
+    - destruct (RInv_getter K0 P sa r R1 Vr Gr) as (R2 & L2 & C2).
+      destruct (g_legs n sa r) as [sb lr]. cbn [fst snd] in R2, L2, C2.
+      exists sb, (lmem ind lr). split; [reflexivity|]. split; [exact R2|]. split; [congruence|].
+      intros Eh. exists lr. split; [apply legs_ok_nonroot in L2; [exact L2|apply Ll]|]. split; [reflexivity|exact Eh]. }
+  destruct Hmid as (sb & hit & Emid & RB & Cb & Hnohit). rewrite Emid. clear Emid.
+  destruct RB as ([HSb HTb] & HCb & Eslb & Tfb & Twb & Tsb & HKb & HKib & HUb & Hunb).
+  assert (Echb : nget p (children sb) = Some (l, r)) by (rewrite Cb; exact Ech).
+  assert (Hpi : nget p (info sb) <> None) by (apply HKib, HpK).
+  assert (E1p : length p <> 1) by (apply (leaf_not_parent _ p l r (proj1 HSb) Echb)).
+  destruct hit.
+  - (* the node is removed and re-created from its (valid) children *)
+    assert (Hink : In p (nkeys (children sb))) by (apply nget_in_keys; congruence).
+    destruct (remove_node_internal_invV (Vof P) p sb (conj HSb HTb) Hink Hpi) as ([HSr HTr] & EchR & EslR & FrR & HpR & TfR & TwR & TsR).
+    set (sR := remove_node n p sb) in *.
+    assert (NDk : NoDup (nkeys (children sb))) by apply HSb.
+    assert (HSr' : InvSV (Vof (p :: P)) sR).
+    { apply (InvSV_extend (Vof P)); [exact HSr| |apply Vof_dec].
+      intros nd i Hi [Hl|[<-|Hin]] HnV; [exfalso; apply HnV; left; exact Hl| |exfalso; apply HnV; right; exact Hin].
+      destruct HpR as [E|E]; rewrite E in Hi; [discriminate|]. injection Hi as <-. apply node_inv_noinfo. }
+    assert (HCr : Vclosed (Vof (p :: P)) (children sR)).
+    { apply Vclosed_Vof_leaf. intros q l' r' Hq Vq. rewrite EchR in Hq.
+      destruct (node_eq_dec q p) as [->|Hn]; [rewrite nget_ndel_same in Hq by exact NDk; discriminate|].
+      rewrite nget_ndel_other in Hq by exact Hn.
+      assert (Vq' : Vof P q) by (destruct Vq as [H|[H|H]]; [left; exact H|congruence|right; exact H]).
+      destruct (proj1 HCb q l' r' Hq Vq') as [A B]. split; apply Vof_mono; assumption. }
+    assert (EU : nunion l r = p) by (apply (HUb p l r Echb HnP)).
+    assert (Hnone : nget (nunion l r) (children sR) = None) by (rewrite EU, EchR; apply nget_ndel_same, NDk).
+    assert (Vp' : Vof (p :: P) (nunion l r)) by (rewrite EU; right; left; reflexivity).
+    destruct (contract_pair_invV (Vof (p :: P)) l r sR (conj HSr' HTr) HCr Gl Gr HRlr Hnone (Vof_mono P p l Vl) (Vof_mono P p r Vr) Vp')
+      as ([HSf HTf] & EchF & EslF & TfF & TwF & TsF & EkF).
+    pose proof (contract_pair_frame (Vof (p :: P)) l r sR HCr (Vof_mono P p l Vl) (Vof_mono P p r Vr) Vp') as FrF.
+    set (sF := contract_pair n l r None None None sR) in *. rewrite EU in EchF.
+    assert (Hch_other : forall q, q <> p -> nget q (children sF) = nget q (children s)).
+    { intros q Hq. rewrite EchF, nget_nset_other by exact Hq. rewrite EchR, nget_ndel_other by exact Hq. rewrite Cb. reflexivity. }
+    split; [|exact Hch_other].
+    assert (Hlr' : order_pair l r = (l, r) \/ order_pair l r = (r, l)).
+    { unfold order_pair. destruct (if Nat.eqb (length l) (length r) then _ else _); auto. }
+    unfold RInv. split; [split; assumption|]. split.
+    { apply Vclosed_Vof_leaf. intros q l' r' Hq Vq. destruct (node_eq_dec q p) as [->|Hn].
+      - rewrite EchF, nget_nset_same in Hq.
+        destruct Hlr' as [E|E]; rewrite E in Hq; injection Hq as <- <-; split; apply Vof_mono; assumption.
+      - rewrite Hch_other in Hq by exact Hn. rewrite <- Cb in Hq.
+        assert (Vq' : Vof P q) by (destruct Vq as [H|[H|H]]; [left; exact H|congruence|right; exact H]).
+        destruct (proj1 HCb q l' r' Hq Vq') as [A B]. split; apply Vof_mono; assumption. }
+    split; [congruence|]. split; [congruence|]. split; [congruence|]. split; [congruence|]. split.
+    { intros q. rewrite <- HKb, <- !nget_in_keys. destruct (node_eq_dec q p) as [->|Hn].
+      - rewrite EchF, nget_nset_same, Echb. split; discriminate.
+      - rewrite Hch_other by exact Hn. rewrite Cb. tauto. }
+    split.
+    { intros q Hq. apply nget_in_keys. unfold nkeys in *. rewrite EkF.
+      assert (Gn : good_node (nunion l r)) by (rewrite EU; exact Gp).
+      destruct (add_node_invV (Vof (p :: P)) l sR (conj HSr' HTr) Gl) as (I1 & _ & _ & _ & M1).
+      destruct (add_node_invV (Vof (p :: P)) r _ I1 Gr) as (I2 & _ & _ & _ & M2).
+      destruct (add_node_invV (Vof (p :: P)) (nunion l r) _ I2 Gn) as (_ & _ & _ & K3 & M3).
+      apply nget_in_keys. destruct (node_eq_dec q p) as [->|Hn]; [rewrite <- EU; exact K3|].
+      assert (Hq0 : nget q (info sR) <> None) by (rewrite FrR by exact Hn; apply HKib, Hq).
+      assert (Hq1 : nget q (info (add_node l sR)) <> None) by (rewrite M1; assumption).
+      assert (Hq2 : nget q (info (add_node r (add_node l sR))) <> None) by (rewrite M2; assumption).
+      rewrite M3; assumption. }
+    split.
+    { intros q l' r' Hq Hnq. assert (Hn : q <> p) by (intros ->; apply Hnq; left; reflexivity).
+      rewrite Hch_other in Hq by exact Hn. rewrite <- Cb in Hq. apply (HUb q l' r' Hq). intros H. apply Hnq. right. exact H. }
+    intros nd i Hi Hl Hnd.
+    assert (Hn : nd <> p) by (intros ->; apply Hnd; left; reflexivity).
+    assert (HnP' : ~ In nd P) by (intros H; apply Hnd; right; exact H).
+    assert (HnV : ~ Vof (p :: P) nd) by (intros [H|H]; contradiction).
+    rewrite (FrF nd HnV), (FrR nd Hn) in Hi.
+    destruct (Hunb nd i Hi Hl HnP') as (A & C). split; [|assumption].
+    apply (node_inv_children_ext (children sb)); [|exact A]. rewrite Hch_other by exact Hn. rewrite Cb. reflexivity.
+  - (* unaffected: the old caches are right for the new sliced set *)
+    destruct (Hnohit eq_refl) as (lr & L2 & El & Er).
+    split; [|intros q _; rewrite Cb; reflexivity].
+    destruct (nget p (info sb)) as [i|] eqn:Ei; [|congruence].
+    destruct (Hunb p i Ei E1p HnP) as (Hold & _).
+    assert (Hnew : node_inv (children sb) sl' p i).
+    { apply (unaffected_node sl sl' ind Hrem Hfresh Hinc (children sb) p i l r ll lr); try assumption. apply HSb. }
+    unfold RInv. split.
+    { split; [|exact HTb]. apply (InvSV_extend (Vof P)); [exact HSb| |apply Vof_dec].
+      intros nd j Hj [Hl|[<-|Hin]] HnV; [exfalso; apply HnV; left; exact Hl| |exfalso; apply HnV; right; exact Hin].
+      rewrite Ei in Hj. injection Hj as <-. rewrite Eslb. exact Hnew. }
+    split.
+    { apply Vclosed_Vof_leaf. intros q l' r' Hq Vq. destruct (node_eq_dec q p) as [->|Hn].
+      - rewrite Echb in Hq. injection Hq as <- <-. split; apply Vof_mono; assumption.
+      - assert (Vq' : Vof P q) by (destruct Vq as [H|[H|H]]; [left; exact H|congruence|right; exact H]).
+        destruct (proj1 HCb q l' r' Hq Vq') as [A B]. split; apply Vof_mono; assumption. }
+    split; [exact Eslb|]. split; [exact Tfb|]. split; [exact Twb|]. split; [exact Tsb|]. split; [exact HKb|]. split; [exact HKib|].
+    split.
+    { intros q l' r' Hq Hnq. apply (HUb q l' r' Hq). intros H. apply Hnq. right. exact H. }
+    intros nd j Hj Hl Hnd. apply (Hunb nd j Hj Hl). intros H. apply Hnd. right. exact H.
+Qed.
+
+Fixpoint children_first (P : list node) (nodes : list (node * (node * node))) : Prop :=
+  match nodes with
+  | [] => True
+  | (p, (l, r)) :: rest => Vof P l /\ Vof P r /\ children_first (p :: P) rest
+  end.
+Lemma RInv_fold K0 nodes : forall P s, RInv K0 P s -> NoDup (map fst nodes) ->
+  (forall e, In e nodes -> nget (fst e) (children s) = Some (snd e)) ->
+  (forall e, In e nodes -> ~ In (fst e) P /\ In (fst e) K0) ->
+  children_first P nodes ->
+  RInv K0 (rev (map fst nodes) ++ P) (fold_left loop_body nodes s).
+Proof.
+  induction nodes as [|[p [l r]] nodes IH]; intros P s HR ND He Hp Hcf; cbn [fold_left map rev]; [exact HR|].
+  cbn [map fst] in ND. inversion ND as [|? ? Hnp ND']. subst.
+  destruct Hcf as (Vl & Vr & Hcf').
+  destruct (Hp _ (or_introl eq_refl)) as [HnP HpK]. cbn [fst] in HnP, HpK.
+  destruct (RInv_step K0 P s p l r HR (He _ (or_introl eq_refl)) HnP Vl Vr HpK) as [HR' Hch].
+  rewrite <- app_assoc. cbn [app]. apply IH; [exact HR'|exact ND'| | |exact Hcf'].
+  - intros e Hin. rewrite Hch; [apply He; right; exact Hin|]. intros E. apply Hnp. rewrite <- E. apply in_map, Hin.
+  - intros e Hin. destruct (Hp e (or_intror Hin)) as [A B]. split; [|exact B].
+    intros [E|H]; [apply Hnp; cbn [fst] in E |- *; rewrite E; apply in_map, Hin|contradiction].
+Qed.
+End RestoreLoop.
+
+Lemma find_removed ind : forall L, In ind (removed L) -> NoDup (removed L) ->
+  exists si, find (fun x => Nat.eqb (sl_ix x) ind) L = Some si /\ sl_ix si = ind /\
+             Permutation L (si :: filter (fun x => negb (Nat.eqb (sl_ix x) ind)) L).
+Proof.
+  unfold removed. induction L as [|x L IH]; cbn [map find filter]; intros Hin ND; [contradiction|].
+  inversion ND as [|? ? Hx ND']; subst. destruct (Nat.eqb_spec (sl_ix x) ind) as [E|E]; cbn [negb].
+  - exists x. split; [reflexivity|]. split; [exact E|].
+    assert (Hf : filter (fun y => negb (Nat.eqb (sl_ix y) ind)) L = L).
+    { clear -Hx E. induction L as [|y L IH]; cbn; [reflexivity|].
+      destruct (Nat.eqb_spec (sl_ix y) ind) as [Ey|Ey]; cbn.
+      - exfalso. apply Hx. left. congruence.
+      - f_equal. apply IH. intros H. apply Hx. right. exact H. }
+    rewrite Hf. reflexivity.
+  - destruct Hin as [H|H]; [congruence|]. destruct (IH H ND') as (si & F & Es & HP).
+    exists si. split; [exact F|]. split; [exact Es|]. rewrite HP at 1. apply perm_swap.
+Qed.
+Lemma removed_filter ind L j : In j (removed (filter (fun x => negb (Nat.eqb (sl_ix x) ind)) L)) <-> j <> ind /\ In j (removed L).
+Proof.
+  unfold removed. rewrite !in_map_iff. split.
+  - intros (x & <- & Hx). apply filter_In in Hx. destruct Hx as [Hx Hn]. apply negb_true_iff, Nat.eqb_neq in Hn. split; [exact Hn|exists x; auto].
+  - intros (Hn & x & <- & Hx). exists x. split; [reflexivity|]. apply filter_In. split; [exact Hx|]. apply negb_true_iff, Nat.eqb_neq, Hn.
+Qed.
+
+Definition rs_pre (ind : ix) (s : tstate) : Prop :=
+  In ind (removed (sliced s)) /\ NoDup (removed (sliced s)) /\
+  trk_flops s = true /\ trk_write s = true /\ trk_size s = true /\
+  (0 < zget ind (szd n))%Z /\ incl (output n) (concat (inputs n)) /\
+  (exists nodes, traverse n s = Some nodes /\ Permutation (map fst nodes) (nkeys (children s)) /\ children_first [] nodes) /\
+  (forall p l r, nget p (children s) = Some (l, r) -> nunion l r = p) /\
+  (forall q, In q (nkeys (children s)) -> nget q (info s) <> None) /\
+  (forall nd i, nget nd (info s) = Some i -> length nd <> 1 -> In nd (nkeys (children s))).
+
+Theorem restore_ind_inv ind s : InvC s -> rs_pre ind s -> InvC (restore_ind n ind s).
+Proof.
+  intros [HS HT] (Hin & NDr & Tf & Tw & Ts & Hpos & Hinc & (nodes & Htr & HPn & Hcf) & HU & HKi & Hfull).
+  unfold restore_ind.
+  destruct (find_removed ind (sliced s) Hin NDr) as (si & Ef & Esi & HPsl). rewrite Ef.
+  set (sl := sliced s) in *. set (sl' := filter (fun x => negb (Nat.eqb (sl_ix x) ind)) sl) in *.
+  assert (Hrem : forall j, In j (removed sl) <-> j = ind \/ In j (removed sl')).
+  { intros j. unfold sl'. rewrite removed_filter. destruct (Nat.eq_dec j ind) as [->|Hn]; tauto. }
+  assert (Hfresh : ~ In ind (removed sl')) by (unfold sl'; rewrite removed_filter; tauto).
+  set (s1 := set_sliced sl' s).
+  rewrite (contract_stats_id s1) by assumption.
+  set (s3 := set_mult (mult s1 / sl_size n si)%Z s1).
+  assert (Em3 : mult s3 = multiplicity n sl').
+  { unfold s3, s1. cbn [set_mult set_sliced mult]. destruct HS as (_&_&_&M). rewrite M. fold sl.
+    rewrite (multiplicity_perm _ _ HPsl). unfold multiplicity at 1. cbn [map]. rewrite zprod_cons.
+    fold (multiplicity n sl'). unfold sl_size. rewrite Esi.
+    destruct (sl_proj si); [rewrite Z.mul_1_l; apply Z.div_1_r|rewrite Z.mul_comm; apply Z.div_mul; lia]. }
+  change (fold_left _ (seq 0 N) s3) with (fold_left (leafstep ind) (seq 0 N) s3).
+  pose proof (leaf_fold_same ind (seq 0 N) s3 (seq_NoDup N 0)) as (A1&A2&A3&A4&A5&A6&A7&A8&A9&A10&A11&A12&A13).
+  set (s4 := fold_left (leafstep ind) (seq 0 N) s3) in *.
+  assert (Etr : traverse n s4 = traverse n s) by (unfold traverse; rewrite A1; reflexivity).
+  rewrite Etr, Htr.
+  set (K0 := nkeys (children s)) in *.
+  assert (Hcleared : forall q, length q = 1 -> good_node q -> In ind (nth (hd 0 q) (inputs n) []) ->
+             exists k, q = [k] /\ In k (seq 0 N) /\ In ind (nth k (inputs n) [])).
+  { intros q E1 Gq Hi. exists (hd 0 q). rewrite (len1 q E1) in Gq |- *. cbn [hd]. split; [reflexivity|].
+    split; [apply in_seq; pose proof (good_leaf _ Gq); lia|rewrite (len1 q E1) in Hi; exact Hi]. }
+  assert (Hinternal : forall q, length q <> 1 -> nget q (info s4) = nget q (info s)).
+  { intros q Hl. rewrite A13; [reflexivity|]. intros (k & -> & _). apply Hl. reflexivity. }
+  destruct HS as (C1&C2&C3&C5).
+  assert (Hkeylen : forall q, In q K0 -> length q <> 1).
+  { intros q Hq. apply nget_in_keys in Hq. destruct (nget q (children s)) as [[l r]|] eqn:E; [|congruence].
+    apply (leaf_not_parent _ q l r C1 E). }
+  assert (HR0 : RInv sl sl' K0 [] s4).
+  { unfold RInv. rewrite A1, A2, A4, A5, A6. cbn [set_mult set_sliced children sliced trk_flops trk_write trk_size].
+    split; [split|].
+    - unfold InvSV. rewrite A1, A2, A3, A11. cbn [set_mult set_sliced children sliced mult info].
+      split; [exact C1|]. split; [exact C2|]. split; [|exact Em3].
+      intros nd i' Hi'.
+      assert (Hk : nget nd (info s) <> None).
+      { apply nget_in_keys. change (info s) with (info s3). unfold nkeys in *. rewrite <- A11. apply nget_in_keys. congruence. }
+      destruct (nget nd (info s)) as [i|] eqn:Ei; [|congruence]. destruct (C3 nd i Ei) as [G Hn].
+      split; [exact G|]. intros [E1|[]].
+      destruct (in_dec Nat.eq_dec ind (nth (hd 0 nd) (inputs n) [])) as [Hc|Hc].
+      + rewrite (A12 nd (Hcleared nd E1 G Hc)) in Hi'. change (info s3) with (info s) in Hi'. rewrite Ei in Hi'. injection Hi' as <-.
+        apply node_inv_noinfo.
+      + rewrite A13 in Hi'.
+        * change (info s3) with (info s) in Hi'. rewrite Ei in Hi'. injection Hi' as <-.
+          rewrite (len1 nd E1) in Hn |- *. apply (leaf_node_same_rev sl sl' ind Hrem (children s) (hd 0 nd) i C1 Hc Hn).
+        * intros (k & Eq & _ & Hk'). subst nd. exact (Hc Hk').
+    - apply totals_split. rewrite A1. cbn [set_mult set_sliced children]. apply totals_split in HT.
+      assert (Rq : forall A (fld : ninfo -> option A) q, In q K0 -> rd fld s4 q = rd fld s q).
+      { intros A fld q Hq. unfold rd. rewrite (Hinternal q (Hkeylen q Hq)). reflexivity. }
+      destruct HT as (T1 & T2 & T3). split; [|split].
+      + apply (tot_flops_frame K0 s s4); [exact A4|exact A7|intros q Hq; apply Rq, Hq|exact T1].
+      + apply (tot_write_frame K0 s s4); [exact A5|exact A8|intros q Hq; apply Rq, Hq|exact T2].
+      + apply (tot_size_frame K0 s s4); [exact A6|exact A9|exact A10|intros q Hq; apply Rq, Hq|exact T3].
+    - split.
+      { apply Vclosed_Vof_leaf. intros q l r Hq [E1|[]]. exfalso. apply (leaf_not_parent _ q l r C1 Hq E1). }
+      split; [reflexivity|]. split; [exact Tf|]. split; [exact Tw|]. split; [exact Ts|]. split; [tauto|]. split.
+      { intros q Hq. rewrite (Hinternal q (Hkeylen q Hq)). apply HKi, Hq. }
+      split; [intros q l r Hq _; apply (HU q l r Hq)|].
+      intros nd i Hi Hl _. rewrite (Hinternal nd Hl) in Hi. destruct (C3 nd i Hi) as [_ Hn].
+      split; [exact Hn|exact (Hfull nd i Hi Hl)]. }
+  (* the loop *)
+  assert (NDn : NoDup (map fst nodes)) by (apply (Permutation_NoDup (Permutation_sym HPn)), C1).
+  pose proof (RInv_fold sl sl' ind Hrem Hfresh Hinc K0 nodes [] s4 HR0 NDn) as HRf.
+  change (fold_left _ nodes s4) with (fold_left (loop_body ind) nodes s4).
+  apply reset_recipes_inv.
+  destruct HRf as ([HSf HTf] & _ & Eslf & _ & _ & _ & HKf & _ & _ & Hunf).
+  - intros e He. rewrite A1. apply (traverse_entries s nodes Htr e He).
+  - intros e He. split; [intros []|]. apply (Permutation_in _ HPn), in_map, He.
+  - exact Hcf.
+  - split; [|exact HTf]. destruct HSf as (D1&D2&D3&D5). unfold InvS. split; [exact D1|]. split; [exact D2|]. split; [|exact D5].
+    intros nd i Hi. destruct (D3 nd i Hi) as [G Hv]. split; [exact G|]. apply Hv.
+    destruct (Nat.eq_dec (length nd) 1) as [E1|E1]; [left; exact E1|right].
+    rewrite app_nil_r. destruct (in_dec node_eq_dec nd (rev (map fst nodes))) as [H|H]; [exact H|exfalso].
+    destruct (Hunf nd i Hi E1) as (_ & Hk); [rewrite app_nil_r; exact H|].
+    apply H, in_rev. rewrite rev_involutive. apply (Permutation_in _ (Permutation_sym HPn)), Hk.
+Qed.
+
+(* ======================================================================== *)
+(* Part R : the covered alphabet, final form: every primitive except the three single-figure
+   totals when they have to recompute *)
+Definition prim_pre (p : prim) (s : tstate) : Prop :=
+  match p with
+  | PRestoreInd ind => rs_pre ind s
+  | _ => prim_preN p s
+  end.
+Theorem step_preserves_InvC p s : InvC s -> prim_pre p s -> InvC (step n p s).
+Proof.
+  intros HI Hp. destruct p; try (apply step_preserves_InvCN; assumption).
+  cbn [step]. apply restore_ind_inv; assumption.
+Qed.
+Theorem run_preserves_InvC tr : forall s, InvC s -> pre_trace n prim_pre tr s -> InvC (run n tr s).
+Proof. intros s HI Hp. apply (run_good n InvC prim_pre step_preserves_InvC tr s HI Hp). Qed.
+Theorem trace_from_fresh_InvC tr : pre_trace n prim_pre tr (init_state n) -> InvC (run n tr (init_state n)).
+Proof. apply run_preserves_InvC, init_state_InvC. Qed.
+
+(* ======================================================================== *)
+(* Part S : the same, for trees that agree up to the order of the two children of a node and
+   the order of the entries of `children` (what restore_ind does to the dict) *)
+Definition ch_sub (c1 c2 : list (node * (node * node))) : Prop :=
+  forall q l r, nget q c1 = Some (l, r) -> nget q c2 = Some (l, r) \/ nget q c2 = Some (r, l).
+Definition ch_equiv c1 c2 : Prop := ch_sub c1 c2 /\ ch_sub c2 c1.
+Lemma inv_ok_swap sl0 l r inv : inv_ok n sl0 l r inv -> inv_ok n sl0 r l inv.
+Proof. intros [W G]. split; [exact W|]. intros j. rewrite G. lia. Qed.
+Lemma ch_equiv_keys c1 c2 : ch_equiv c1 c2 -> forall q, In q (nkeys c1) <-> In q (nkeys c2).
+Proof.
+  intros [H1 H2] q. rewrite <- !nget_in_keys. split; intros H.
+  - destruct (nget q c1) as [[l r]|] eqn:E; [|congruence]. destruct (H1 q l r E) as [E'|E']; rewrite E'; discriminate.
+  - destruct (nget q c2) as [[l r]|] eqn:E; [|congruence]. destruct (H2 q l r E) as [E'|E']; rewrite E'; discriminate.
+Qed.
+
+Theorem figures_determined_eq s1 s2 : InvC s1 -> InvC s2 -> ch_equiv (children s1) (children s2) ->
+  (forall j, In j (removed (sliced s1)) <-> In j (removed (sliced s2))) ->
+  forall nd i1 i2, nget nd (info s1) = Some i1 -> nget nd (info s2) = Some i2 ->
+  (forall z1 z2, i_size i1 = Some z1 -> i_size i2 = Some z2 -> z1 = z2) /\
+  (forall z1 z2, i_flops i1 = Some z1 -> i_flops i2 = Some z2 -> z1 = z2) /\
+  (forall l1 l2, i_legs i1 = Some l1 -> i_legs i2 = Some l2 ->
+     size_of (szd n) (lkeys l1) = size_of (szd n) (lkeys l2) /\ forall j, In j (lkeys l1) <-> In j (lkeys l2)).
+Proof.
+  intros [HS1 _] [HS2 _] [Hs12 Hs21] Hrm nd i1 i2 Hi1 Hi2.
+  assert (HS1' := HS1). destruct HS1' as (Hc1&_&N1&_). assert (HS2' := HS2). destruct HS2' as (Hc2&_&N2&_).
+  destruct (N1 nd i1 Hi1) as [G (A1&B1&C1&D1)]. destruct (N2 nd i2 Hi2) as [_ (A2&B2&C2&D2)].
+  destruct (g_legs_inv s1 nd HS1 G) as (_ & _ & Hw). set (lg0 := snd (g_legs n s1 nd)) in *.
+  pose proof (legs_ok_same _ _ Hrm nd lg0 Hw) as Hw2.
+  split; [|split].
+  - intros z1 z2 E1 E2. rewrite (C1 z1 E1 lg0 Hw), (C2 z2 E2 lg0 Hw2). reflexivity.
+  - intros z1 z2 E1 E2. destruct (D1 z1 E1) as [[L1 ->]|(l & r & Ech1 & F1)].
+    + destruct (D2 z2 E2) as [[_ ->]|(l & r & Ech2 & _)]; [reflexivity|].
+      exfalso. apply (leaf_not_parent _ nd l r Hc2 Ech2 L1).
+    + destruct (D2 z2 E2) as [[L2 _]|(l' & r' & Ech2 & F2)]; [exfalso; apply (leaf_not_parent _ nd l r Hc1 Ech1 L2)|].
+      destruct (g_involved_inv s1 nd HS1 G) as (_ & _ & Hv).
+      destruct Hv as [[L _]|(l2 & r2 & E & Hinv)]; [right; congruence|exfalso; apply (leaf_not_parent _ nd l r Hc1 Ech1 L)|].
+      rewrite Ech1 in E. injection E as <- <-.
+      pose proof (inv_ok_same _ _ Hrm l r _ Hinv) as Hinv2.
+      rewrite (F1 _ Hinv). destruct (Hs12 nd l r Ech1) as [E'|E']; rewrite Ech2 in E'; injection E' as -> ->.
+      * symmetry. apply (F2 _ Hinv2).
+      * symmetry. apply (F2 _ (inv_ok_swap _ _ _ _ Hinv2)).
+  - intros l1 l2 E1 E2. pose proof (legs_ok_same _ _ Hrm nd l1 (A1 l1 E1)) as H1. pose proof (A2 l2 E2) as H2.
+    split; [apply (legs_ok_size_unique n (sliced s2) _ nd); assumption|].
+    unfold legs_ok in H1, H2. destruct (Nat.eqb (length nd) N).
+    + destruct H1 as [_ G1], H2 as [_ G2]. intros j. rewrite <- !lget_in_keys, G1, G2. tauto.
+    + destruct H1 as [W1 G1], H2 as [W2 G2]. apply wfl_keys_same; try assumption. intros j. rewrite G1, G2. reflexivity.
+Qed.
+
+Theorem totals_determined_eq s1 s2 : InvC s1 -> InvC s2 -> ch_equiv (children s1) (children s2) ->
+  Permutation (sliced s1) (sliced s2) ->
+  (forall p, In p (nkeys (children s1)) -> nget p (info s1) <> None /\ nget p (info s2) <> None) ->
+  (trk_flops s1 = true -> trk_flops s2 = true -> flops_ s1 = flops_ s2) /\
+  (trk_write s1 = true -> trk_write s2 = true -> write_ s1 = write_ s2) /\
+  mult s1 = mult s2.
+Proof.
+  intros HI1 HI2 Heq HP Hpres.
+  assert (Hrm : forall j, In j (removed (sliced s1)) <-> In j (removed (sliced s2))).
+  { intros j. unfold removed. split; apply Permutation_in; [|apply Permutation_sym]; apply Permutation_map, HP. }
+  pose proof (figures_determined_eq s1 s2 HI1 HI2 Heq Hrm) as HF.
+  destruct HI1 as [HS1 HT1], HI2 as [HS2 HT2].
+  assert (HPk : Permutation (nkeys (children s2)) (nkeys (children s1))).
+  { apply NoDup_Permutation; [apply HS2|apply HS1|]. intros q. symmetry. apply ch_equiv_keys, Heq. }
+  assert (HT1' : tot_flops (nkeys (children s1)) s1 /\ tot_write (nkeys (children s1)) s1 /\ tot_size (nkeys (children s1)) s1) by (apply totals_split, HT1).
+  assert (HT2' : tot_flops (nkeys (children s2)) s2 /\ tot_write (nkeys (children s2)) s2 /\ tot_size (nkeys (children s2)) s2) by (apply totals_split, HT2).
+  destruct HT1' as (F1 & W1 & _), HT2' as (F2 & W2 & _).
+  split; [|split].
+  - intros T1 T2. destruct (F1 T1) as [Ea Pa], (F2 T2) as [Eb Pb]. rewrite Ea, Eb.
+    rewrite (zsum_perm _ _ (Permutation_map (cflops s2) HPk)). f_equal. apply map_ext_in. intros p Hp.
+    destruct (Hpres p Hp) as [K1 K2]. destruct (nget p (info s1)) as [i1|] eqn:E1; [|congruence].
+    destruct (nget p (info s2)) as [i2|] eqn:E2; [|congruence].
+    specialize (Pa p Hp). assert (Hp2 : In p (nkeys (children s2))) by (apply (Permutation_in _ (Permutation_sym HPk)), Hp). specialize (Pb p Hp2).
+    unfold cflops, rd in *. rewrite E1 in *. rewrite E2 in *.
+    destruct (HF p i1 i2 E1 E2) as (_ & Hf & _).
+    destruct (i_flops i1) as [z1|]; [|congruence]. destruct (i_flops i2) as [z2|]; [|congruence].
+    apply (Hf z1 z2); reflexivity.
+  - intros T1 T2. destruct (W1 T1) as [Ea Pa], (W2 T2) as [Eb Pb]. rewrite Ea, Eb.
+    rewrite (zsum_perm _ _ (Permutation_map (csize s2) HPk)). f_equal. apply map_ext_in. intros p Hp.
+    destruct (Hpres p Hp) as [K1 K2]. destruct (nget p (info s1)) as [i1|] eqn:E1; [|congruence].
+    destruct (nget p (info s2)) as [i2|] eqn:E2; [|congruence].
+    specialize (Pa p Hp). assert (Hp2 : In p (nkeys (children s2))) by (apply (Permutation_in _ (Permutation_sym HPk)), Hp). specialize (Pb p Hp2).
+    unfold csize, rd in *. rewrite E1 in *. rewrite E2 in *.
     destruct (HF p i1 i2 E1 E2) as (Hsz & _).
     destruct (i_size i1) as [z1|]; [|congruence]. destruct (i_size i2) as [z2|]; [|congruence].
     apply (Hsz z1 z2); reflexivity.
